@@ -4,7 +4,7 @@ From Coq Require Import List String NArith ZArith Bool Lia ZifyBool ZifyN Permut
 From RecordUpdate Require Import RecordUpdate.
 Import ListNotations.
 From GMQ Require Import Broker.Model Proofs.BrokerFrames Proofs.BrokerTags Proofs.BrokerChanInv Proofs.BrokerQueueInv
-  Proofs.BrokerReady Proofs.BrokerRelease Proofs.BrokerHeld Proofs.BrokerConserveView Proofs.BrokerConserveOps.
+  Proofs.BrokerReady Proofs.BrokerRelease Proofs.BrokerRestart Proofs.BrokerHeld Proofs.BrokerConserveView Proofs.BrokerConserveOps.
 Open Scope N_scope.
 
 (* ================================================================== *)
@@ -966,20 +966,494 @@ Proof.
   destruct (fx_clear_current fx); auto. eapply Good_then_frame; [exact G|]. apply view_upd_chan_same. intros; cpr.
 Qed.
 
+
 (* ================================================================== *)
-(* the labels covered by the per-step theorem *)
+(* content frames *)
+Lemma conn_opened_stage s c cn : get_conn s c = Some cn -> conn_opened s c = cstage_eqb (cn_stage cn) StOpen.
+Proof. unfold conn_opened. intros ->. reflexivity. Qed.
+Lemma ensure_chan_id s c h ch : get_chan s c h = Some ch -> ensure_chan s c h = s.
+Proof.
+  unfold get_chan, ensure_chan. destruct (get_conn s c) as [cn|]; [|discriminate]. intros ->. reflexivity.
+Qed.
+Lemma ensure_chan_new s c h cn : get_conn s c = Some cn -> get_chan s c h = None -> get_chan (ensure_chan s c h) c h = Some channel0.
+Proof.
+  intros Ec Eh. unfold get_chan in Eh. rewrite Ec in Eh. unfold ensure_chan. rewrite Ec, Eh.
+  unfold get_chan, get_conn. cbn. rewrite (alookup_aset N.eqb Neqb_spec), N.eqb_refl. cbn.
+  rewrite (alookup_aset N.eqb Neqb_spec), N.eqb_refl. reflexivity.
+Qed.
+Lemma get_msg_upd_msg_same s u f m : get_msg s u = Some m -> get_msg (upd_msg s u f) u = Some (f m).
+Proof. intros E. unfold upd_msg. rewrite E. unfold get_msg. cbn. rewrite (alookup_aset N.eqb Neqb_spec), N.eqb_refl. reflexivity. Qed.
+Lemma exchanges_upd_msg s u f : exchanges (upd_msg s u f) = exchanges s.
+Proof. unfold upd_msg. destruct (get_msg s u); reflexivity. Qed.
+
+Lemma routed_ext fx s s' u m m' qid :
+  get_msg s u = Some m -> get_msg s' u = Some m' -> m_ex m' = m_ex m -> m_key m' = m_key m ->
+  exchanges s' = exchanges s -> queues s' = queues s -> routed fx s' u qid = routed fx s u qid.
+Proof.
+  intros E E' X K Ex Q. unfold routed. rewrite E, E', X, K, Ex. destruct (alookup seqb (m_ex m) (exchanges s)); auto.
+  apply flat_map_ext. intros qn. rewrite (get_queue_same_queues _ _ qn Q). reflexivity.
+Qed.
+
+Lemma Good_publish_after fx s c h u m f :
+  VI s -> get_msg s u = Some m -> m_ex (f m) = m_ex m -> m_key (f m) = m_key m ->
+  Good s (fst (finish_publish fx (upd_msg s u f) c h u)) nil1 (routed fx s u).
+Proof.
+  intros V Hm X K.
+  pose proof (Good_finish_publish fx (upd_msg s u f) c h u (f m) (VI_view _ _ (view_upd_msg s u f) V) (get_msg_upd_msg_same _ _ f _ Hm)) as G.
+  eapply Good_frame_then; [apply (view_upd_msg s u f)|exact V|].
+  eapply Good_ext; [intros q; reflexivity| |exact G].
+  intros q. rewrite (routed_ext fx s (upd_msg s u f) u m (f m) q Hm (get_msg_upd_msg_same _ _ f _ Hm) X K (exchanges_upd_msg _ _ _) (queues_upd_msg _ _ _)).
+  reflexivity.
+Qed.
+
+Lemma Good_header_opened cfg fx s c h mid size pers cn0 :
+  VI s -> get_conn s c = Some cn0 -> cstage_eqb (cn_stage cn0) StOpen = true ->
+  Good s (fst (step cfg fx s (LHeader c h mid size pers))) nil1 (placed cfg fx s (LHeader c h mid size pers)).
+Proof.
+  intros V Ec Hop. cbn [step]. unfold placed, current. rewrite Ec, Hop. cbn [negb andb].
+  assert (G0 : Good s (ensure_chan s c h) nil1 nil1).
+  { apply Good_ensure_chan; auto. intros cn E Hs. rewrite Ec in E. inversion E; subst. destruct (cn_stage cn); try discriminate. congruence. }
+  destruct (get_chan s c h) as [ch|] eqn:Ech.
+  - rewrite (ensure_chan_id _ _ _ _ Ech), Ech.
+    destruct (fx_discard_closing fx && _)%bool; [apply Good_frame; auto|].
+    destruct (ch_cur ch) as [u|]; [|apply Good_frame; auto].
+    destruct (get_msg s u) as [m|] eqn:Em; [|apply Good_frame; auto].
+    destruct (m_has_header m); cbn [negb andb]; [apply Good_frame; auto|].
+    destruct (fx_empty_body fx && (size =? 0))%bool.
+    + apply (Good_publish_after fx s c h u m); auto.
+    + cbn [fst]. apply Good_frame; auto. apply view_upd_msg.
+  - rewrite (ensure_chan_new _ _ _ _ Ec Ech). cbn [ch_status channel0 ch_cur]. rewrite andb_false_r. exact G0.
+Qed.
+
+Lemma Good_body_opened cfg fx s c h len cn0 :
+  VI s -> get_conn s c = Some cn0 -> cstage_eqb (cn_stage cn0) StOpen = true ->
+  Good s (fst (step cfg fx s (LBody c h len))) nil1 (placed cfg fx s (LBody c h len)).
+Proof.
+  intros V Ec Hop. cbn [step]. unfold placed, current. rewrite Ec, Hop. cbn [negb andb].
+  assert (G0 : Good s (ensure_chan s c h) nil1 nil1).
+  { apply Good_ensure_chan; auto. intros cn E Hs. rewrite Ec in E. inversion E; subst. destruct (cn_stage cn); try discriminate. congruence. }
+  destruct (get_chan s c h) as [ch|] eqn:Ech.
+  - rewrite (ensure_chan_id _ _ _ _ Ech), Ech.
+    destruct (fx_discard_closing fx && _)%bool; [apply Good_frame; auto|].
+    destruct (ch_cur ch) as [u|]; [|apply Good_frame; auto].
+    destruct (get_msg s u) as [m|] eqn:Em; [|apply Good_frame; auto].
+    destruct (m_has_header m); cbn [negb andb]; [|apply Good_frame; auto].
+    destruct (m_hsize m <? m_size m + len); cbn [negb andb].
+    { apply Good_frame; auto. cbn. apply view_upd_chan_same. intros; cpr. }
+    destruct (m_size m + len <? m_hsize m); cbn [negb].
+    + cbn [fst]. apply Good_frame; auto. apply view_upd_msg.
+    + apply (Good_publish_after fx s c h u m); auto.
+  - rewrite (ensure_chan_new _ _ _ _ Ec Ech). cbn [ch_status channel0 ch_cur]. rewrite andb_false_r. exact G0.
+Qed.
+
+(* ================================================================== *)
+(* queue.delete, auto-delete *)
+Lemma view_cancel_fold l : forall s evs,
+  view (fst (fold_left (fun acc x => let '(s, evs) := acc in let '(s', e) := consumer_cancel s x in (s', evs ++ e)) l (s, evs))) = view s.
+Proof.
+  induction l as [|[[c h] tag] t IH]; intros s evs; cbn [fold_left]; auto. cbn [consumer_cancel]. rewrite IH. apply view_consumer_stop.
+Qed.
+
+Definition delete_released (s : state) (q : string) (iu ie : bool) (qid : N) : list N :=
+  match get_queue s q with
+  | Some qu => if delete_refused qu iu ie then [] else ready_if qu qid
+  | None => []
+  end.
+
+Lemma Good_vhost_delete s q iu ie :
+  VI s -> Good s (fst (fst (vhost_delete_queue false s q iu ie))) (delete_released s q iu ie) nil1.
+Proof.
+  intros V. unfold vhost_delete_queue, delete_released. destruct (get_queue s q) as [qu|] eqn:Eq; [|apply Good_frame; auto].
+  fold (delete_refused qu iu ie). destruct (delete_refused qu iu ie); [apply Good_frame; auto|].
+  pose proof (view_cancel_fold (q_consumers qu) s []) as E1.
+  destruct (fold_left _ (q_consumers qu) (s, [])) as [s1 e1]. cbn [fst] in *.
+  destruct (view_inv _ _ E1) as (A & B & C).
+  match goal with |- Good _ ?st _ _ =>
+    assert (Eqv : qv st = adel seqb q (qv s)) by (unfold qv at 1; destruct (q_durable qu); cbn; rewrite vmap_adel; fold (qv s1); rewrite B; reflexivity);
+    assert (Ecv : cv st = cv s) by (destruct (q_durable qu); cbn; exact A);
+    assert (Enq : next_qid st = next_qid s) by (destruct (q_durable qu); cbn; exact C)
+  end.
+  assert (Hl : alookup seqb q (qv s) = Some (qproj qu)) by (rewrite qv_get, Eq; reflexivity).
+  apply Good_of_views.
+  - unfold VI. rewrite Eqv, Ecv, Enq. apply VInv_adel. exact V.
+  - intros qid. rewrite Eqv, Ecv. unfold nil1.
+    pose proof (rdy_adel (qv s) q (qproj qu) qid (vi_qkeys _ _ _ V) Hl) as Hr. unfold qcontrib in Hr. cbn in Hr.
+    unfold ready_if. perm_lia.
+Qed.
+
+Lemma Good_queue_delete cfg fx s c h q iu ie nowait ch :
+  fx_delete_checks_first fx = true -> VI s -> get_chan s c h = Some ch ->
+  Good s (fst (fst (handle_method cfg fx s c h (MQDelete q iu ie nowait)))) (method_released fx s c h (MQDelete q iu ie nowait)) nil1.
+Proof.
+  intros F V Ech. unfold handle_method, method_released. rewrite Ech. unfold ok, refuse.
+  destruct (queue_found s q) as [qu|] eqn:Ef; [|apply Good_frame; auto].
+  pose proof (queue_found_get _ _ _ Ef) as Eg.
+  destruct (locked qu c); cbn [orb]; [apply Good_frame; auto|]. rewrite F. cbn [negb].
+  pose proof (Good_vhost_delete s q iu ie V) as G. unfold delete_released in G. rewrite Eg in G.
+  destruct (vhost_delete_queue false s q iu ie) as [[s1 e1] r1]. cbn [fst] in *. destruct r1; exact G.
+Qed.
+
+Lemma Good_autodelete cfg fx s :
+  fx_delete_checks_first fx = true -> VI s -> Good s (fst (step cfg fx s LAutoDelete)) (released cfg fx s LAutoDelete) nil1.
+Proof.
+  intros F V.
+  apply (Good_ext s _ (fun qid => match autodel s with [] => [] | qn :: _ => match get_queue s qn with Some qu => ready_if qu qid | None => [] end end) nil1);
+    [intros; reflexivity|intros; reflexivity|].
+  cbn [step]. destruct (autodel s) as [|qn rest]; [apply Good_frame; auto|]. rewrite F. cbn [negb].
+  assert (E0 : view (s <| autodel := rest |>) = view s) by reflexivity.
+  pose proof (Good_vhost_delete (s <| autodel := rest |>) qn false false (VI_view _ _ E0 V)) as G.
+  unfold delete_released in G. change (get_queue (s <| autodel := rest |>) qn) with (get_queue s qn) in G.
+  destruct (vhost_delete_queue false (s <| autodel := rest |>) qn false false) as [[s1 e1] r1]. cbn [fst] in *.
+  eapply Good_frame_then; [exact E0|exact V|]. eapply Good_ext; [| |exact G]; intros q; [|reflexivity].
+  destruct (get_queue s qn) as [qu|]; [|reflexivity]. unfold delete_refused. cbn. reflexivity.
+Qed.
+
+(* ================================================================== *)
+(* basic.get *)
+Lemma Good_get cfg fx s c h q noack ch :
+  VI s -> get_chan s c h = Some ch -> h <> 0 -> is_closed (ch_status ch) = false ->
+  Good s (fst (fst (handle_method cfg fx s c h (MGet q noack)))) (method_released fx s c h (MGet q noack)) nil1.
+Proof.
+  intros V Ech Hh Hcl. unfold handle_method, method_released. rewrite Ech. unfold ok, refuse.
+  destruct (queue_found s q) as [qu|] eqn:Ef; [|apply Good_nil_rel; [intros; destruct noack; reflexivity|apply Good_frame; auto]].
+  pose proof (queue_found_get _ _ _ Ef) as Eq.
+  destruct (fx_excl_owner fx && locked qu c); [apply Good_nil_rel; [intros; destruct noack; reflexivity|apply Good_frame; auto]|].
+  destruct (q_ready qu) as [|u rest] eqn:Er.
+  { apply Good_nil_rel; [intros q0; unfold head_if; rewrite Er; destruct noack, (q_id qu =? q0); reflexivity|apply Good_frame; auto]. }
+  match goal with |- context [if noack then (Some [], []) else ?r] => destruct (if noack then (Some [], []) else r) as [okr ws] eqn:Eres end.
+  set (s1 := match ws with [w1; w2] => _ | _ => s end).
+  assert (E1 : view s1 = view s).
+  { subst s1. destruct ws as [|w1 [|w2 [|]]]; auto. destruct (get_conn (set_chan s c h (ch <| ch_qos := w1 |>)) c) eqn:Ec.
+    - rewrite (view_set_conn_qos' _ _ _ _ Ec). eapply view_set_chan_same; [eauto|cpr].
+    - eapply view_set_chan_same; [eauto|cpr]. }
+  assert (Q1 : qv s1 = qv s) by (apply qv_of_view; exact E1).
+  assert (C1 : cv s1 = cv s) by (apply cv_of_view; exact E1).
+  assert (N1 : next_qid s1 = next_qid s) by (apply nq_of_view; exact E1).
+  assert (Ech1 : exists ch1, get_chan s1 c h = Some ch1 /\ cflags ch1 = cflags ch /\ ch_unacked ch1 = ch_unacked ch).
+  { pose proof (get_chan_proj s s1 c h C1) as Hp; rewrite Ech in Hp; destruct (get_chan s1 c h) as [ch1|]; [|discriminate].
+    cbn in Hp; inversion Hp; eexists; split; [reflexivity|]; unfold cflags; split; congruence. }
+  destruct Ech1 as (ch1 & Ech1 & Ef1 & Eu1).
+  clearbody s1.
+  destruct okr as [okl|]; cbn [fst].
+  2:{ apply Good_nil_rel; [intros; destruct noack; [discriminate|reflexivity]|apply Good_frame; auto]. }
+  destruct noack.
+  - apply (Good_deliver s _ c h q qu u rest true V Eq Er).
+    + destruct (fx_noack_total_once fx); qvn; rewrite (qv_upd_queue _ _ _ (p_set_ready rest)) by (intros; apply qproj_popped); rewrite Q1; reflexivity.
+    + destruct (fx_noack_total_once fx); nqn; exact N1.
+    + destruct (fx_noack_total_once fx); cvn; exact C1.
+  - apply (Good_deliver s _ c h q qu u rest false V Eq Er).
+    + qvn. rewrite (qv_upd_queue _ _ _ (p_set_ready rest)) by (intros; apply qproj_popped). rewrite Q1. reflexivity.
+    + nqn. exact N1.
+    + exists ch; eexists; split; [exact Ech|]; split;
+         [strip_set; rewrite cv_upd_queue; strip_set;
+          rewrite (cv_append _ c h ch1) by (rewrite get_chan_upd_queue; exact Ech1);
+          rewrite cv_upd_queue, C1, Ef1, Eu1; reflexivity|].
+      split; [|split; [reflexivity|split; [reflexivity|split; [exact Hh|exact Hcl]]]].
+      cbn [u_qid]. rewrite (qid_of_shape s); [unfold qid_of; rewrite Eq; reflexivity|].
+      rewrite qv_upd_chan, (qv_upd_queue _ _ _ (p_set_ready rest)) by (intros; apply qproj_popped).
+      rewrite (qshape_qv_upd _ _ _ (fun p => p_set_ready_shape rest p)), Q1; reflexivity.
+Qed.
+
+(* ================================================================== *)
+(* closing a channel, as an equation on views *)
+Lemma get_chan_of_cv s c h x : cv_get (cv s) c h = Some x -> exists ch, get_chan s c h = Some ch /\ cproj ch = x.
+Proof. rewrite cv_get_cv. destruct (get_chan s c h); cbn; [intros H; inversion H; eauto|discriminate]. Qed.
+
+Definition cp_closed : cp := ((true, false), []).
+
+Lemma keep_not_all ts l : (forall u, In u l -> In (u_tag u) ts) -> keep_not ts l = [].
+Proof.
+  intros H. unfold keep_not. induction l as [|u t IH]; cbn; auto.
+  assert (E : existsb (N.eqb (u_tag u)) ts = true) by (apply existsb_exists; exists (u_tag u); split; [apply H; left; reflexivity|apply N.eqb_refl]).
+  rewrite E. cbn. apply IH. intros x Hx. apply H. right. exact Hx.
+Qed.
+
+Lemma channel_close_view cfg s c h ch : VI s -> get_chan s c h = Some ch ->
+  cv (channel_close cfg s c h) = cv_set c h cp_closed (cv s) /\
+  qv (channel_close cfg s c h) = fold_left (fun v u => rq u v) (sort_desc (ch_unacked ch)) (qv s) /\
+  next_qid (channel_close cfg s c h) = next_qid s.
+Proof.
+  intros V Ech. unfold channel_close. rewrite Ech.
+  set (s1 := fold_left (fun s cm => consumer_stop s c h (c_tag cm)) (ch_consumers ch) s).
+  assert (E1 : view s1 = view s) by (subst s1; apply view_fold; intros; apply view_consumer_stop).
+  destruct (view_inv _ _ E1) as (Ec1 & Eq1 & En1).
+  pose proof (cv_get_chan _ _ _ _ Ech) as Hcg.
+  assert (Hg1 : cv_get (cv s1) c h = Some (cflags ch, ch_unacked ch)) by (rewrite Ec1; exact Hcg).
+  destruct (get_chan_of_cv _ _ _ _ Hg1) as (ch1 & Ech1 & Ep1). unfold cproj in Ep1. inversion Ep1 as [[Es1 Ehc1 Eu1]].
+  clearbody s1.
+  set (s2 := upd_chan s1 c h (fun ch => ch <| ch_consumers := [] |>)).
+  assert (Ech2 : get_chan s2 c h = Some (ch1 <| ch_consumers := [] |>)) by (subst s2; apply get_chan_upd_chan_same; exact Ech1).
+  assert (Ec2 : cv s2 = cv_set c h ((is_closed (ch_status ch), false), ch_unacked ch) (cv s)).
+  { subst s2. rewrite cv_upd_chan, Ech1, Ec1. unfold cproj. cbn. rewrite Es1, Eu1. reflexivity. }
+  assert (Eq2 : qv s2 = qv s) by (subst s2; rewrite qv_upd_chan; exact Eq1).
+  assert (En2 : next_qid s2 = next_qid s) by (subst s2; rewrite next_qid_upd_chan; exact En1).
+  assert (Hg2 : cv_get (cv s2) c h = Some ((is_closed (ch_status ch), false), ch_unacked ch)) by (rewrite Ec2; eapply cv_get_set_same; eauto).
+  clearbody s2.
+  destruct (0 <? h) eqn:Eh.
+  - unfold handle_reject. rewrite Ech2. cbn [fst]. cbn [ch_unacked set]. change (ch_unacked (ch1 <| ch_consumers := [] |>)) with (ch_unacked ch1). rewrite Eu1.
+    rewrite covered_eq, filter_covered0.
+    set (sel := sort_desc (ch_unacked ch)).
+    destruct (reject_fold_view c h true sel s2) as (A & B & C). cbv zeta in A, B, C.
+    set (s3 := fold_left (fun s u => dec_qos_and_consume_next cfg s c h u) sel _).
+    assert (Ec3 : cv s3 = cv_set c h ((is_closed (ch_status ch), false), []) (cv s2)).
+    { subst s3. rewrite view_fold_dec_cv, A. rewrite (cv_del_fold _ _ _ _ _ _ Hg2). f_equal. f_equal.
+      apply keep_not_all. intros u Hu. subst sel. apply in_map. apply sort_desc_perm. exact Hu. }
+    assert (Eq3 : qv s3 = fold_left (fun v u => rq u v) sel (qv s)) by (subst s3; rewrite view_fold_dec_qv, B, Eq2; reflexivity).
+    assert (En3 : next_qid s3 = next_qid s) by (subst s3; rewrite view_fold_dec_nq, C; exact En2).
+    assert (Hg3 : cv_get (cv s3) c h = Some ((is_closed (ch_status ch), false), [])) by (rewrite Ec3; eapply cv_get_set_same; eauto).
+    destruct (get_chan_of_cv _ _ _ _ Hg3) as (ch3 & Ech3 & Ep3). unfold cproj in Ep3. inversion Ep3 as [[Es3 Ehc3 Eu3]].
+    clearbody s3. split; [|split].
+    + rewrite cv_upd_chan, Ech3, Ec3, Ec2, !cv_set_set. unfold cproj, cp_closed. cbn. rewrite Ehc3, Eu3. reflexivity.
+    + rewrite qv_upd_chan. exact Eq3.
+    + rewrite next_qid_upd_chan. exact En3.
+  - apply N.ltb_ge in Eh. assert (h = 0) by lia. subst h.
+    destruct (cz_at _ _ _ _ V Ech (or_introl eq_refl)) as [Hu Hc]. rewrite Hu in *. rewrite ?Eu1. cbn [sort_desc fold_right fold_left].
+    destruct (get_chan_of_cv _ _ _ _ Hg2) as (ch3 & Ech3 & Ep3). unfold cproj in Ep3. inversion Ep3 as [[Es3 Ehc3 Eu3]].
+    split; [|split].
+    + rewrite cv_upd_chan, Ech3, Ec2, !cv_set_set. unfold cproj, cp_closed. cbn. rewrite Ehc3, Eu3. reflexivity.
+    + rewrite qv_upd_chan, Eq2. reflexivity.
+    + rewrite next_qid_upd_chan. exact En2.
+Qed.
+
+(* ================================================================== *)
+(* ending a connection *)
+Definition chan_l (v : cview) (c h : N) : list unacked := match cv_get v c h with Some (_, l) => l | None => [] end.
+
+Lemma flat_map_ext_in' {A B} (f g : A -> list B) l : (forall x, In x l -> f x = g x) -> flat_map f l = flat_map g l.
+Proof. induction l as [|a t IH]; intros H; cbn; auto. rewrite (H a (or_introl eq_refl)), IH; auto. intros x Hx. apply H. right. exact Hx. Qed.
+Lemma flat_map_map' {A B C} (g : A -> B) (f : B -> list C) l : flat_map f (map g l) = flat_map (fun x => f (g x)) l.
+Proof. induction l as [|a t IH]; cbn; auto. rewrite IH. reflexivity. Qed.
+
+Lemma close_fold_view cfg c ids : forall s, Inv s -> NoDup ids -> (forall h, In h ids -> cv_get (cv s) c h <> None) ->
+  let s' := fold_left (fun s h => channel_close cfg s c h) ids s in
+  Inv s' /\ cv s' = fold_left (fun v h => cv_set c h cp_closed v) ids (cv s) /\
+  qv s' = fold_left (fun v u => rq u v) (flat_map (fun h => sort_desc (chan_l (cv s) c h)) ids) (qv s) /\
+  next_qid s' = next_qid s.
+Proof.
+  induction ids as [|h t IH]; intros s I Hnd Hex; cbn [fold_left flat_map]; [auto|].
+  inversion Hnd as [|? ? Hni Hnd']; subst.
+  destruct (cv_get (cv s) c h) as [x|] eqn:Eg; [|exfalso; apply (Hex h (or_introl eq_refl)); exact Eg].
+  destruct (get_chan_of_cv _ _ _ _ Eg) as (ch & Ech & Ep).
+  destruct (channel_close_view cfg s c h ch (proj1 I) Ech) as (A & B & C).
+  assert (I1 : Inv (channel_close cfg s c h)) by (split; [exact (proj1 (Good_channel_close cfg s c h I))|apply CI_channel_close; exact (proj2 I)]).
+  assert (Hget : forall h', h' <> h -> cv_get (cv (channel_close cfg s c h)) c h' = cv_get (cv s) c h').
+  { intros h' Hne. rewrite A, cv_get_set. destruct (cv_get_some_conn _ _ _ _ Eg) as (e & ->). rewrite N.eqb_refl. cbn.
+    destruct (h' =? h) eqn:E; auto. apply N.eqb_eq in E. contradiction. }
+  destruct (IH (channel_close cfg s c h) I1 Hnd') as (I' & A' & B' & C').
+  { intros h' Hin. rewrite Hget; [apply Hex; right; exact Hin|]. intros ->. contradiction. }
+  cbv zeta in *. split; [exact I'|]. split; [rewrite A', A; reflexivity|]. split; [|rewrite C'; exact C].
+  rewrite B', B. rewrite fold_left_app. f_equal.
+  - apply flat_map_ext_in'. intros h' Hin. unfold chan_l. rewrite Hget; auto. intros ->. contradiction.
+  - f_equal. f_equal. unfold chan_l. rewrite Eg. rewrite <- Ep. reflexivity.
+Qed.
+
+Lemma vhost_delete_view s q :
+  cv (fst (fst (vhost_delete_queue false s q false false))) = cv s /\
+  qv (fst (fst (vhost_delete_queue false s q false false))) = adel seqb q (qv s) /\
+  next_qid (fst (fst (vhost_delete_queue false s q false false))) = next_qid s.
+Proof.
+  unfold vhost_delete_queue. destruct (get_queue s q) as [qu|] eqn:Eq.
+  - cbn [andb orb]. pose proof (view_cancel_fold (q_consumers qu) s []) as E1.
+    destruct (fold_left _ (q_consumers qu) (s, [])) as [s1 e1]. cbn [fst] in *. destruct (view_inv _ _ E1) as (A & B & C).
+    split; [destruct (q_durable qu); cbn; exact A|]. split; [|destruct (q_durable qu); cbn; exact C].
+    unfold qv at 1. destruct (q_durable qu); cbn; rewrite vmap_adel; fold (qv s1); rewrite B; reflexivity.
+  - cbn [fst]. split; auto. split; auto. symmetry. apply adel_none. rewrite qv_get, Eq. reflexivity.
+Qed.
+
+Lemma delete_fold_view l : forall s evs,
+  let s' := fst (fold_left (fun acc qn => let '(s, evs) := acc in
+                                          let '(s', e, _) := vhost_delete_queue false s qn false false in (s', evs ++ e)) l (s, evs)) in
+  cv s' = cv s /\ qv s' = fold_left (fun v qn => adel seqb qn v) l (qv s) /\ next_qid s' = next_qid s.
+Proof.
+  induction l as [|qn t IH]; intros s evs; cbn [fold_left]; [auto|].
+  destruct (vhost_delete_view s qn) as (A & B & C).
+  destruct (vhost_delete_queue false s qn false false) as [[s1 e1] r1]. cbn [fst] in *.
+  destruct (IH s1 (evs ++ e1)) as (A' & B' & C'). cbv zeta in *. rewrite A', B', C', A, B, C. auto.
+Qed.
+
+Lemma adel_fold_cv_set c x ids : forall v : cview, adel N.eqb c (fold_left (fun v h => cv_set c h x v) ids v) = adel N.eqb c v.
+Proof. induction ids as [|h t IH]; intros v; cbn; auto. rewrite IH. apply adel_cv_set. Qed.
+
+Definition Pown (c : N) (e : string * qp) : bool := p_excl (snd e) && (p_owner (snd e) =? c).
+
+Lemma owned_qv c (l : list (string * queue)) :
+  map fst (filter (fun kv => q_excl (snd kv) && (q_owner (snd kv) =? c)) l) = map fst (filter (Pown c) (vmap qproj l)).
+Proof.
+  unfold vmap. induction l as [|[k qu] t IH]; cbn; auto. unfold Pown at 1. cbn. destruct (q_excl qu && (q_owner qu =? c)); cbn; rewrite IH; reflexivity.
+Qed.
+Lemma owned_by_qv c qid (l : list (string * queue)) :
+  existsb (owned_by c qid) l = existsb (fun e => Pown c e && (p_id (snd e) =? qid)) (vmap qproj l).
+Proof. unfold vmap. induction l as [|[k qu] t IH]; cbn; auto. rewrite IH. reflexivity. Qed.
+
+Lemma alive_filter_false (f : string * qp -> bool) (v : qview) qid : alive v qid = false -> alive (filter f v) qid = false.
+Proof.
+  unfold alive. induction v as [|e t IH]; cbn; auto. intros H. apply orb_false_iff in H. destruct H as [H1 H2].
+  destruct (f e); cbn; rewrite ?H1; auto.
+Qed.
+
+Lemma Good_conn_close cfg fx s c :
+  fx_delete_checks_first fx = true -> Inv s -> Good s (fst (conn_close cfg fx s c)) (conn_released s c) nil1.
+Proof.
+  intros F I. pose proof (proj1 I) as V. unfold conn_close, conn_released.
+  destruct (get_conn s c) as [cn|] eqn:Ec; [|apply Good_frame; auto].
+  assert (Ecv : alookup N.eqb c (cv s) = Some (nproj cn)) by (unfold cv; rewrite alookup_vmap; unfold get_conn in Ec; rewrite Ec; reflexivity).
+  assert (Hinc : In (c, nproj cn) (cv s)) by (eapply alookup_in; eauto; apply Neqb_spec).
+  assert (Hkeys : NoDup (map fst (cn_chans cn))).
+  { pose proof (vi_hkeys _ _ _ V c (cn_stage cn) (vmap cproj (cn_chans cn)) Hinc) as H. rewrite keys_vmap in H. exact H. }
+  set (ids := sort_desc_N (map fst (cn_chans cn))).
+  assert (Hperm : Permutation ids (map fst (cn_chans cn))) by apply sort_desc_N_perm.
+  assert (Hnd : NoDup ids) by (eapply Permutation_NoDup; [symmetry; exact Hperm|exact Hkeys]).
+  assert (Hcg : forall kh, In kh (cn_chans cn) -> cv_get (cv s) c (fst kh) = Some (cproj (snd kh))).
+  { intros [h ch] Hin. unfold cv_get. rewrite Ecv. cbn. rewrite alookup_vmap.
+    rewrite (nodup_in_alookup N.eqb Neqb_spec _ _ _ Hkeys Hin). reflexivity. }
+  assert (Hex : forall h, In h ids -> cv_get (cv s) c h <> None).
+  { intros h Hin. apply (Permutation_in _ Hperm) in Hin. apply in_map_iff in Hin. destruct Hin as (kh & <- & Hkh). rewrite (Hcg _ Hkh). discriminate. }
+  destruct (close_fold_view cfg c ids s I Hnd Hex) as (I1 & A1 & B1 & C1). cbv zeta in *.
+  set (s1 := fold_left (fun s h => channel_close cfg s c h) ids s) in *. clearbody s1.
+  rewrite F. cbn [negb]. rewrite owned_qv. fold (qv s1).
+  set (owned := map fst (filter (Pown c) (qv s1))).
+  destruct (delete_fold_view owned s1 []) as (A2 & B2 & C2). cbv zeta in *.
+  destruct (fold_left _ owned (s1, [])) as [s2 e2]. cbn [fst] in *.
+  pose proof (proj1 I1) as V1. unfold VI in V1.
+  assert (B2' : qv s2 = filter (fun e => negb (Pown c e)) (qv s1)).
+  { rewrite B2, fold_adel_filter. apply filter_ext_in. intros e He. f_equal. apply names_of_filter; auto. exact (vi_qkeys _ _ _ V1). }
+  assert (Hsh : qshape (qv s1) = qshape (qv s)) by (rewrite B1; apply qshape_rq_fold).
+  assert (Ecv3 : cv (s2 <| conns := adel N.eqb c (conns s2) |>) = adel N.eqb c (cv s)).
+  { unfold cv at 1. cbn. rewrite vmap_adel. fold (cv s2). rewrite A2, A1. apply adel_fold_cv_set. }
+  apply Good_of_views.
+  - unfold VI. rewrite Ecv3. change (qv (s2 <| conns := adel N.eqb c (conns s2) |>)) with (qv s2).
+    change (next_qid (s2 <| conns := adel N.eqb c (conns s2) |>)) with (next_qid s2). rewrite C2, C1.
+    rewrite <- (adel_fold_cv_set c cp_closed ids (cv s)), <- A1. apply VInv_adel_conn.
+    + rewrite B2. apply VInv_fold_adel. rewrite <- C1. exact V1.
+    + intros n p Hin He. rewrite B2' in Hin. apply filter_In in Hin. destruct Hin as [_ Hf]. unfold Pown in Hf. cbn in Hf. rewrite He in Hf. cbn in Hf.
+      intros E. rewrite E, N.eqb_refl in Hf. discriminate.
+  - intros qid. rewrite Ecv3. change (qv (s2 <| conns := adel N.eqb c (conns s2) |>)) with (qv s2). unfold nil1.
+    set (M := msgs_from qid (chan_unacked_all cn)).
+    assert (U1 : Permutation (una (cv s) qid) (una (adel N.eqb c (cv s)) qid ++ M)).
+    { unfold una, M. rewrite <- msgs_from_app. apply msgs_from_perm.
+      replace (chan_unacked_all cn) with (conn_au (nproj cn)); [apply au_adel; [exact (vi_ckeys _ _ _ V)|exact Ecv]|].
+      unfold conn_au, nproj, chan_unacked_all. cbn [snd]. rewrite flat_map_vmap. reflexivity. }
+    set (D := flat_map (fun h => sort_desc (chan_l (cv s) c h)) ids) in *.
+    assert (HD : Permutation D (chan_unacked_all cn)).
+    { unfold D. etransitivity; [apply Permutation_flat_map; exact Hperm|]. rewrite flat_map_map'. unfold chan_unacked_all.
+      apply perm_flat_map_ext_in. intros kh Hkh. unfold chan_l. rewrite (Hcg _ Hkh). cbn. apply sort_desc_permutation. }
+    assert (HDin : forall u, In u D -> In u (au (cv s))).
+    { intros u Hu. apply (Permutation_in _ HD) in Hu. unfold chan_unacked_all in Hu. apply in_flat_map in Hu. destruct Hu as (kh & Hkh & Hu).
+      eapply (cv_get_au (cv s) c (fst kh)); [exact (Hcg _ Hkh)|exact Hu]. }
+    assert (R1 : Permutation (rdy (qv s1) qid) ((if alive (qv s) qid then M else []) ++ rdy (qv s) qid)).
+    { rewrite B1. rewrite (rdy_rq_fold D qid (qv s) (vi_active _ _ _ V)).
+      rewrite (msgs_from_origin (cv s) (qv s) (next_qid s) D qid V HDin). destruct (alive (qv s) qid); [|reflexivity].
+      apply Permutation_app_tail. apply msgs_from_perm. exact HD. }
+    rewrite queue_alive_qv, owned_by_qv. fold (qv s).
+    assert (Eown : existsb (fun e => Pown c e && (p_id (snd e) =? qid)) (qv s) = existsb (fun e => Pown c e && (p_id (snd e) =? qid)) (qv s1)).
+    { symmetry. exact (existsb_shape (qv s) (qv s1) (fun t => let '(i, ex, o, a) := t in ex && (o =? c) && (i =? qid)) Hsh). }
+    rewrite Eown. rewrite B2'.
+    destruct (alive (qv s) qid) eqn:Ea; cbn [negb orb].
+    + destruct (existsb (fun e => Pown c e && (p_id (snd e) =? qid)) (qv s1)) eqn:Eo.
+      * apply existsb_exists in Eo. destruct Eo as ([n p] & Hin & Hp). apply andb_prop in Hp. destruct Hp as [Hp1 Hp2]. apply N.eqb_eq in Hp2. cbn in Hp2.
+        rewrite (rdy_filter_gone _ (qv s1) n p qid (vi_qids _ _ _ V1) Hin Hp2) by (rewrite Hp1; reflexivity).
+        rewrite ready_of_qv. perm_lia.
+      * rewrite rdy_filter_other; [perm_lia|]. intros e He Hf Hid. apply Bool.negb_false_iff in Hf.
+        assert (existsb (fun e => Pown c e && (p_id (snd e) =? qid)) (qv s1) = true); [|congruence].
+        apply existsb_exists. exists e. split; auto. rewrite Hf. apply N.eqb_eq. exact Hid.
+    + assert (E0 : rdy (qv s) qid = []) by (apply alive_false_rdy; exact Ea).
+      assert (E2 : rdy (filter (fun e => negb (Pown c e)) (qv s1)) qid = []).
+      { apply alive_false_rdy. apply alive_filter_false. rewrite (alive_shape _ _ qid Hsh). exact Ea. }
+      rewrite E2, ready_of_qv, E0. perm_lia.
+Qed.
+
+(* ================================================================== *)
+(* connections that have not completed the handshake *)
+Lemma conn_stage_cv s c cn : get_conn s c = Some cn -> alookup N.eqb c (cv s) = Some (nproj cn).
+Proof. intros Ec. unfold cv. rewrite alookup_vmap. unfold get_conn in Ec. rewrite Ec. reflexivity. Qed.
+
+Lemma unopened_empty s c cn : VI s -> get_conn s c = Some cn -> cstage_eqb (cn_stage cn) StOpen = false -> chan_unacked_all cn = [].
+Proof.
+  intros V Ec Hs. pose proof (conn_stage_cv _ _ _ Ec) as Ecv.
+  assert (Hin : In (c, nproj cn) (cv s)) by (eapply alookup_in; eauto; apply Neqb_spec).
+  assert (Hne : cn_stage cn <> StOpen) by (intros E; rewrite E in Hs; discriminate).
+  unfold chan_unacked_all. 
+  assert (H : forall kh, In kh (cn_chans cn) -> ch_unacked (snd kh) = []).
+  { intros [h ch] Hk. assert (Hk' : In (h, cproj ch) (vmap cproj (cn_chans cn))) by (unfold vmap; apply in_map_iff; exists (h, ch); auto).
+    pose proof (vi_quiet _ _ _ V c _ _ Hin Hne h _ Hk') as H0. unfold cproj in Hk'.
+    exact (proj1 (vi_cz _ _ _ V c _ _ h _ _ Hin Hk' (or_introl H0))). }
+  induction (cn_chans cn) as [|kh t IH]; cbn; auto. rewrite (H kh (or_introl eq_refl)). cbn. apply IH. intros x Hx. apply H. right. exact Hx.
+Qed.
+
+Lemma conn_released_unopened s c qid : VI s -> conn_opened s c = false -> conn_released s c qid = [].
+Proof.
+  intros V Hop. unfold conn_released. destruct (get_conn s c) as [cn|] eqn:Ec; auto.
+  rewrite (conn_opened_stage _ _ _ Ec) in Hop. rewrite (unopened_empty _ _ _ V Ec Hop). cbn [msgs_from map filter]. unfold msgs_from. cbn.
+  assert (Eo : existsb (owned_by c qid) (queues s) = false).
+  { apply Bool.not_true_is_false. intros Hx. apply existsb_exists in Hx. destruct Hx as ([n qu] & Hin & Hp). unfold owned_by in Hp. cbn in Hp.
+    apply andb_prop in Hp. destruct Hp as [Hp _]. apply andb_prop in Hp. destruct Hp as [He Ho]. apply N.eqb_eq in Ho.
+    assert (Hq : In (n, qproj qu) (qv s)) by (unfold qv, vmap; apply in_map_iff; exists (n, qu); auto).
+    pose proof (vi_owner _ _ _ V _ _ Hq He) as H. cbn in H. rewrite Ho, opened_cv, (conn_opened_stage _ _ _ Ec) in H. congruence. }
+  rewrite Eo. destruct (queue_alive s qid) eqn:Ea; cbn; auto.
+  rewrite ready_of_qv, app_nil_r. apply alive_false_rdy. rewrite <- queue_alive_qv. exact Ea.
+Qed.
+
+Lemma VInv_set_stage cw qw nq c st st' chs :
+  VInv cw qw nq -> alookup N.eqb c cw = Some (st, chs) -> st <> StOpen -> VInv (aset N.eqb c (st', chs) cw) qw nq.
+Proof.
+  intros [A1 A2 A3 A4 A5 A6 A7 A8 A9 A10] Ec Hst.
+  assert (Hin : In (c, (st, chs)) cw) by (eapply alookup_in; eauto; apply Neqb_spec).
+  assert (Hnew : forall c' s' chs', In (c', (s', chs')) (aset N.eqb c (st', chs) cw) -> In (c', (s', chs')) cw \/ (c' = c /\ chs' = chs)).
+  { intros c' s' chs' H. apply in_aset in H. destruct H as [H|H]; auto. inversion H; subst. auto. }
+  assert (Hau : au (aset N.eqb c (st', chs) cw) = au cw).
+  { destruct (flat_map_aset_split N.eqb Neqb_spec (fun n : np => flat_map (fun he : N * cp => snd (snd he)) (snd n)) c (st, chs) (st', chs) cw Ec) as (A & B & E1 & E2).
+    unfold au. etransitivity; [exact E2|]. symmetry. exact E1. }
+  constructor; auto.
+  - rewrite (keys_aset N.eqb Neqb_spec), Ec. exact A1.
+  - intros c' s' chs' H. apply Hnew in H. destruct H as [H|[-> ->]]; eauto.
+  - intros u Hu. rewrite Hau in Hu. auto.
+  - intros c' s' chs' H Hs h x Hx. apply Hnew in H. destruct H as [H|[-> ->]]; eauto.
+  - intros n p Hp He. pose proof (A8 n p Hp He) as Ho. unfold opened in *. rewrite (alookup_aset N.eqb Neqb_spec).
+    destruct (p_owner p =? c) eqn:E; auto. apply N.eqb_eq in E. rewrite E, Ec in Ho. destruct st; try discriminate. congruence.
+  - intros c' s' chs' h b l H Hx. apply Hnew in H. destruct H as [H|[-> ->]]; eauto.
+Qed.
+
+Lemma Good_set_stage s c st' cn : VI s -> get_conn s c = Some cn -> cstage_eqb (cn_stage cn) StOpen = false ->
+  Good s (set_stage s c st') nil1 nil1.
+Proof.
+  intros V Ec Hs. unfold set_stage. rewrite Ec. pose proof (conn_stage_cv _ _ _ Ec) as Ecv.
+  assert (Ev : cv (s <| conns := aset N.eqb c (cn <| cn_stage := st' |>) (conns s) |>) = aset N.eqb c (st', vmap cproj (cn_chans cn)) (cv s)).
+  { unfold cv. cbn. rewrite vmap_aset. reflexivity. }
+  assert (Hne : cn_stage cn <> StOpen) by (intros E; rewrite E in Hs; discriminate).
+  apply Good_of_views.
+  - unfold VI. rewrite Ev. eapply VInv_set_stage; eauto.
+  - intros qid. rewrite Ev. unfold una.
+    destruct (flat_map_aset_split N.eqb Neqb_spec (fun n : np => flat_map (fun he : N * cp => snd (snd he)) (snd n)) c (nproj cn) (st', vmap cproj (cn_chans cn)) (cv s) Ecv) as (A & B & E1 & E2).
+    assert (Hau : au (aset N.eqb c (st', vmap cproj (cn_chans cn)) (cv s)) = au (cv s)) by (unfold au; etransitivity; [exact E2|symmetry; exact E1]).
+    rewrite Hau. reflexivity.
+Qed.
+
+(* an error on the connection: the connection is dropped if it has not completed the handshake *)
+Lemma apply_err_st_conn cfg fx opened s0 c h s1 a b d :
+  fst (apply_err_st cfg fx opened s0 c h (refuse s1 (ConnErr a b d))) = if opened then s1 else fst (conn_close cfg fx s1 c).
+Proof. unfold apply_err_st, refuse, apply_err. cbn. destruct opened; cbn; auto. destruct (conn_close cfg fx s1 c); reflexivity. Qed.
+
+Lemma Good_drop_unopened cfg fx s c :
+  fx_delete_checks_first fx = true -> Inv s -> conn_opened s c = false -> Good s (fst (conn_close cfg fx s c)) nil1 nil1.
+Proof.
+  intros F I Hop. apply (Good_ext s _ (conn_released s c) nil1); [|intros; reflexivity|apply Good_conn_close; auto].
+  intros q. rewrite (conn_released_unopened s c q (proj1 I) Hop). reflexivity.
+Qed.
+
+Lemma Good_err_st cfg fx (opened : bool) s0 c h s1 a b d :
+  fx_delete_checks_first fx = true -> Inv s1 -> (opened = false -> conn_opened s1 c = false) ->
+  Good s1 (fst (apply_err_st cfg fx opened s0 c h (refuse s1 (ConnErr a b d)))) nil1 nil1.
+Proof.
+  intros F I Hop. rewrite apply_err_st_conn. destruct opened; [apply Good_frame; [reflexivity|exact (proj1 I)]|].
+  apply Good_drop_unopened; auto.
+Qed.
+(* ================================================================== *)
+(* the methods handled by the first dispatch lemma (the others follow in Good_handle_method_all) *)
 Definition covered_meth (m : meth) : bool :=
   match m with
   | MConnClose | MConnCloseOk | MGet _ _ | MQDelete _ _ _ _ | MStartOk _ | MTuneOk _ | MConnOpen _ => false
   | _ => true
   end.
-Definition covered (s : state) (l : label) : Prop :=
-  match l with
-  | LMethod c h m => (get_conn s c = None \/ conn_opened s c = true) /\ covered_meth m = true
-  | LConsumerTurn _ _ _ | LQueueLoop _ | LPersistTick | LRelay | LConfirmTick _ _ | LConnect _ => True
-  | _ => False
-  end.
-
 Lemma ensure_chan_some s c h cn : get_conn s c = Some cn -> exists ch, get_chan (ensure_chan s c h) c h = Some ch.
 Proof.
   intros Ec. unfold ensure_chan. rewrite Ec. destruct (alookup N.eqb h (cn_chans cn)) as [ch|] eqn:Eh.
@@ -1042,43 +1516,270 @@ Proof.
   all: exact HX.
 Qed.
 
-Lemma released_method cfg fx s c h m qid : covered_meth m = true -> conn_opened s c = true ->
+
+(* ================================================================== *)
+(* every method, once dispatched on an opened connection *)
+Lemma Good_handle_method_all cfg fx s c h m ch :
+  fx_stage fx = true -> fx_chan_open fx = true -> fx_closeok_releases fx = true -> fx_delete_checks_first fx = true ->
+  Inv s -> conn_opened s c = true -> get_chan s c h = Some ch -> dispatched fx s c h m = true ->
+  Good s (fst (fst (handle_method cfg fx s c h m))) (method_released fx s c h m) nil1.
+Proof.
+  intros F1 F2 F3 F4 I Hop Ech Hd.
+  destruct (covered_meth m) eqn:Hc; [apply (Good_handle_method cfg fx s c h m ch); auto|].
+  pose proof (proj1 I) as V.
+  destruct m; try discriminate.
+  - (* queue.delete *) apply (Good_queue_delete cfg fx s c h q ifunused ifempty nowait ch); auto.
+  - (* basic.get *) apply (Good_get cfg fx s c h q noack ch); auto.
+    + unfold dispatched in Hd. destruct (get_conn s c); [|discriminate]. rewrite F1 in Hd. cbn in Hd.
+      intros ->. cbn in Hd. rewrite !andb_false_r in Hd. cbn in Hd. rewrite ?andb_false_r in Hd. discriminate.
+    + unfold dispatched in Hd. destruct (get_conn s c); [|discriminate].
+      rewrite F2 in Hd. unfold chan_usable in Hd. rewrite Ech in Hd. destruct (ch_status ch); cbn in *; auto.
+      rewrite !andb_false_r in Hd. discriminate.
+  - apply Good_frame; auto. apply view_handle_method_frame. reflexivity.
+  - apply Good_frame; auto. apply view_handle_method_frame. reflexivity.
+  - exfalso. unfold dispatched in Hd. destruct (get_conn s c) as [cn|] eqn:Ec; [|discriminate]. rewrite (conn_opened_stage _ _ _ Ec) in Hop.
+    rewrite F1 in Hd. cbn [stage_allows] in Hd. destruct (cn_stage cn); try discriminate. cbn in Hd. rewrite !andb_false_r in Hd. discriminate.
+  - exfalso. unfold dispatched in Hd. destruct (get_conn s c) as [cn|] eqn:Ec; [|discriminate]. rewrite (conn_opened_stage _ _ _ Ec) in Hop.
+    rewrite F1 in Hd. cbn [stage_allows] in Hd. destruct (cn_stage cn); try discriminate. cbn in Hd. rewrite !andb_false_r in Hd. discriminate.
+  - exfalso. unfold dispatched in Hd. destruct (get_conn s c) as [cn|] eqn:Ec; [|discriminate]. rewrite (conn_opened_stage _ _ _ Ec) in Hop.
+    rewrite F1 in Hd. cbn [stage_allows] in Hd. destruct (cn_stage cn); try discriminate. cbn in Hd. rewrite !andb_false_r in Hd. discriminate.
+Qed.
+
+Lemma method_unopened cfg fx s c m cn0 :
+  fx_stage fx = true -> get_conn s c = Some cn0 -> cstage_eqb (cn_stage cn0) StOpen = false ->
+  fst (step cfg fx s (LMethod c 0 m)) = ensure_chan s c 0 \/
+  fst (step cfg fx s (LMethod c 0 m)) = fst (conn_close cfg fx (ensure_chan s c 0) c) \/
+  exists st, fst (step cfg fx s (LMethod c 0 m)) = set_stage (ensure_chan s c 0) c st.
+Proof.
+  intros F1 Ec Hs. cbn [step]. rewrite Ec, Hs. cbn [negb N.eqb andb].
+  destruct (ensure_chan_some s c 0 cn0 Ec) as (ch0 & Ech0).
+  set (s0 := ensure_chan s c 0) in *.
+  assert (Hconn : forall a b d, fst (apply_err_st cfg fx false s0 c 0 (refuse s0 (ConnErr a b d))) = fst (conn_close cfg fx s0 c))
+    by (intros; apply apply_err_st_conn).
+  destruct m;
+    try (rewrite F1; cbn [negb N.eqb andb]; right; left; try reflexivity; destruct (conn_close cfg fx s0 c); reflexivity).
+  all: cbv zeta.
+  all: destruct (fx_discard_closing fx && _ && negb (is_chan_close _))%bool; [left; reflexivity|].
+  all: rewrite F1.
+  all: try (cbn [is_conn_class meth_ids fst]; change (20 =? 10) with false; change (40 =? 10) with false; change (50 =? 10) with false;
+            change (60 =? 10) with false; change (85 =? 10) with false; change (90 =? 10) with false; change (0 =? 0) with true;
+            cbn [Bool.eqb negb andb]; right; left; apply Hconn).
+  all: cbn [is_conn_class meth_ids fst]; change (10 =? 10) with true; change (0 =? 0) with true; cbn [Bool.eqb negb andb].
+  all: destruct (stage_allows _ _); cbn [negb]; [|right; left; apply Hconn].
+  all: rewrite ?andb_false_r; cbn [andb].
+  all: unfold handle_method; rewrite Ech0; unfold ok, refuse.
+  all: try destruct good; try destruct within; try destruct vhost_ok.
+  all: try (right; left; apply Hconn).
+  all: right; right; eexists; unfold apply_err_st; cbn; reflexivity.
+Qed.
+
+(* ================================================================== *)
+(* content frames on any connection *)
+Lemma conn_opened_view s s' c : cv s' = cv s -> conn_opened s' c = conn_opened s c.
+Proof. intros E. rewrite <- !opened_cv, E. reflexivity. Qed.
+
+Lemma conn_opened_ensure s c h c' : conn_opened (ensure_chan s c h) c' = conn_opened s c'.
+Proof.
+  unfold ensure_chan. destruct (get_conn s c) as [cn|] eqn:Ec; auto. destruct (alookup N.eqb h (cn_chans cn)); auto.
+  unfold conn_opened, get_conn in *. cbn. rewrite (alookup_aset N.eqb Neqb_spec). destruct (c' =? c) eqn:E; auto.
+  apply N.eqb_eq in E. subst. rewrite Ec. reflexivity.
+Qed.
+
+Lemma Good_ensure s c h cn0 : VI s -> get_conn s c = Some cn0 -> negb (cstage_eqb (cn_stage cn0) StOpen) && negb (h =? 0) = false ->
+  Good s (ensure_chan s c h) nil1 nil1.
+Proof.
+  intros V Ec Hg. apply Good_ensure_chan; auto. intros cn E Hs. rewrite Ec in E. inversion E; subst.
+  destruct (cstage_eqb (cn_stage cn) StOpen) eqn:E1; [destruct (cn_stage cn); try discriminate; congruence|].
+  cbn in Hg. apply Bool.negb_false_iff in Hg. apply N.eqb_eq in Hg. exact Hg.
+Qed.
+
+Lemma Good_header cfg fx s c h mid size pers :
+  fx_delete_checks_first fx = true -> Inv s ->
+  Good s (fst (step cfg fx s (LHeader c h mid size pers))) nil1 (placed cfg fx s (LHeader c h mid size pers)).
+Proof.
+  intros F I. pose proof (proj1 I) as V. cbn [step]. unfold placed, current. destruct (get_conn s c) as [cn0|] eqn:Ec; [|apply Good_frame; auto].
+  set (op := cstage_eqb (cn_stage cn0) StOpen).
+  assert (Hop : op = false -> conn_opened s c = false) by (intros E; rewrite (conn_opened_stage _ _ _ Ec); exact E).
+  destruct (negb op && negb (h =? 0)) eqn:Eg.
+  { apply Good_drop_unopened; auto. apply Hop. destruct op; [discriminate|reflexivity]. }
+  pose proof (Good_ensure s c h cn0 V Ec Eg) as G0.
+  destruct (get_chan s c h) as [ch|] eqn:Ech.
+  - rewrite (ensure_chan_id _ _ _ _ Ech), Ech.
+    destruct (fx_discard_closing fx && _)%bool; [apply Good_frame; auto|].
+    destruct (ch_cur ch) as [u|]; [|apply Good_err_st; auto].
+    destruct (get_msg s u) as [m|] eqn:Em; [|apply Good_frame; auto].
+    destruct (m_has_header m); cbn [negb andb]; [apply Good_err_st; auto|].
+    destruct (fx_empty_body fx && (size =? 0))%bool.
+    + apply (Good_publish_after fx s c h u m); auto.
+    + cbn [fst]. apply Good_frame; auto. apply view_upd_msg.
+  - rewrite (ensure_chan_new _ _ _ _ Ec Ech). cbn [ch_status channel0 ch_cur]. rewrite andb_false_r.
+    eapply Good2; [exact G0|]. apply Good_err_st; auto.
+    + split; [exact (proj1 G0)|apply CI_ensure_chan; exact (proj2 I)].
+    + intros E. rewrite conn_opened_ensure. auto.
+Qed.
+
+Lemma Good_body cfg fx s c h len :
+  fx_delete_checks_first fx = true -> Inv s ->
+  Good s (fst (step cfg fx s (LBody c h len))) nil1 (placed cfg fx s (LBody c h len)).
+Proof.
+  intros F I. pose proof (proj1 I) as V. cbn [step]. unfold placed, current. destruct (get_conn s c) as [cn0|] eqn:Ec; [|apply Good_frame; auto].
+  set (op := cstage_eqb (cn_stage cn0) StOpen).
+  assert (Hop : op = false -> conn_opened s c = false) by (intros E; rewrite (conn_opened_stage _ _ _ Ec); exact E).
+  destruct (negb op && negb (h =? 0)) eqn:Eg.
+  { apply Good_drop_unopened; auto. apply Hop. destruct op; [discriminate|reflexivity]. }
+  pose proof (Good_ensure s c h cn0 V Ec Eg) as G0.
+  destruct (get_chan s c h) as [ch|] eqn:Ech.
+  - rewrite (ensure_chan_id _ _ _ _ Ech), Ech.
+    destruct (fx_discard_closing fx && _)%bool; [apply Good_frame; auto|].
+    destruct (ch_cur ch) as [u|]; [|apply Good_err_st; auto].
+    destruct (get_msg s u) as [m|] eqn:Em; [|apply Good_frame; auto].
+    destruct (m_has_header m); cbn [negb andb]; [|apply Good_err_st; auto].
+    destruct (m_hsize m <? m_size m + len); cbn [negb andb].
+    { assert (E1 : view (upd_chan s c h (fun ch => ch <| ch_cur := None |>)) = view s) by (apply view_upd_chan_same; intros; cpr).
+      eapply Good2; [apply Good_frame; [exact E1|exact V]|]. apply Good_err_st; auto.
+      - split; [eapply VI_view; eauto|]. apply allch_upd_chan; [intros ch0 Hc0; eapply chinvp_set; [..|exact Hc0]; reflexivity|exact (proj2 I)].
+      - intros E. rewrite (conn_opened_view _ _ c (cv_of_view _ _ E1)). auto. }
+    destruct (m_size m + len <? m_hsize m); cbn [negb].
+    + cbn [fst]. apply Good_frame; auto. apply view_upd_msg.
+    + apply (Good_publish_after fx s c h u m); auto.
+  - rewrite (ensure_chan_new _ _ _ _ Ec Ech). cbn [ch_status channel0 ch_cur]. rewrite andb_false_r.
+    eapply Good2; [exact G0|]. apply Good_err_st; auto.
+    + split; [exact (proj1 G0)|apply CI_ensure_chan; exact (proj2 I)].
+    + intros E. rewrite conn_opened_ensure. auto.
+Qed.
+
+(* ================================================================== *)
+(* restart *)
+Lemma qids_qv s : qids (qv s) = map (fun kq => q_id (snd kq)) (queues s).
+Proof. unfold qids, qv, vmap. rewrite map_map. reflexivity. Qed.
+
+Lemma rdy_recovered s qid (l : list (string * queue)) :
+  rdy (map (fun kv : string * queue => (fst kv, {| p_id := q_id (snd kv); p_excl := false; p_owner := 0; p_active := true; p_ready := stored_of s (fst kv) |}))
+           (filter (fun kv : string * queue => q_durable (snd kv)) l)) qid
+  = flat_map (fun kq => if q_durable (snd kq) && (q_id (snd kq) =? qid) then stored_of s (fst kq) else []) l.
+Proof.
+  unfold rdy. induction l as [|kq t IH]; cbn; auto. destruct (q_durable (snd kq)); cbn; rewrite IH; reflexivity.
+Qed.
+
+Lemma Good_restart cfg s : VI s -> Good s (fst (restart cfg s)) (held s) (recovered s).
+Proof.
+  intros V. unfold restart. cbn [fst].
+  set (rqf := fun kv : string * queue => (fst kv, new_queue (q_id (snd kv)) 0 true false (q_autodel (snd kv))
+               <| q_ready := stored_of s (fst kv) |> <| q_len := Z.of_nat (List.length (stored_of s (fst kv))) |>
+               <| q_mready := Z.of_nat (List.length (stored_of s (fst kv))) |> <| q_mtotal := Z.of_nat (List.length (stored_of s (fst kv))) |>)).
+  set (durq := filter (fun kv : string * queue => q_durable (snd kv)) (queues s)).
+  match goal with |- Good _ ?st _ _ => set (s' := st) end.
+  assert (Eq : qv s' = map (fun kv => (fst kv, {| p_id := q_id (snd kv); p_excl := false; p_owner := 0; p_active := true; p_ready := stored_of s (fst kv) |})) durq).
+  { subst s'. unfold qv, vmap. cbn [queues]. fold durq. rewrite map_map. reflexivity. }
+  assert (Ec : cv s' = []) by reflexivity.
+  assert (En : next_qid s' = next_qid s) by reflexivity.
+  split.
+  - unfold VI. rewrite Ec, Eq, En. constructor; cbn; try (intros; contradiction); try constructor.
+    + rewrite map_map. cbn. subst durq. pose proof (vi_qkeys _ _ _ V) as H. unfold qv in H. rewrite keys_vmap in H.
+      apply NoDup_map_filter. exact H.
+    + unfold qids. rewrite map_map. cbn. subst durq. pose proof (vi_qids _ _ _ V) as H. rewrite qids_qv in H.
+      apply NoDup_map_filter. exact H.
+    + intros n p Hin. apply in_map_iff in Hin. destruct Hin as ([k qu] & E & Hk). cbn in E. inversion E; subst n p. cbn.
+      subst durq. apply filter_In in Hk. destruct Hk as [Hk _].
+      apply (vi_qbound _ _ _ V k (qproj qu)). unfold qv, vmap. apply in_map_iff. exists (k, qu). auto.
+    + intros n p Hin He. apply in_map_iff in Hin. destruct Hin as ([k qu] & E & Hk). inversion E; subst. discriminate.
+    + intros n p Hin. apply in_map_iff in Hin. destruct Hin as ([k qu] & E & Hk). inversion E; subst. reflexivity.
+  - intros qid. rewrite (held_view s'), Ec, Eq. unfold una. cbn [au flat_map msgs_from map filter]. rewrite app_nil_r.
+    assert (Er : rdy (map (fun kv : string * queue => (fst kv, {| p_id := q_id (snd kv); p_excl := false; p_owner := 0; p_active := true; p_ready := stored_of s (fst kv) |})) durq) qid
+                 = recovered s qid).
+    { subst durq. apply rdy_recovered. }
+    rewrite Er. apply Permutation_app_comm.
+Qed.
+
+(* ================================================================== *)
+(* every label *)
+Lemma released_method_any cfg fx s c h m qid :
+  match m with MConnClose | MConnCloseOk => False | _ => True end -> conn_opened s c = true ->
   released cfg fx s (LMethod c h m) qid =
   if dispatched fx (ensure_chan s c h) c h m then method_released fx (ensure_chan s c h) c h m qid else [].
-Proof. intros Hc Hop. unfold released. rewrite Hop. destruct m; try discriminate; reflexivity. Qed.
+Proof. intros Hc Hop. unfold released. rewrite Hop. destruct m; try contradiction; reflexivity. Qed.
 
-Lemma conn_opened_stage s c cn : get_conn s c = Some cn -> conn_opened s c = cstage_eqb (cn_stage cn) StOpen.
-Proof. unfold conn_opened. intros ->. reflexivity. Qed.
+Lemma released_unopened cfg fx s c h m qid : conn_opened s c = false -> released cfg fx s (LMethod c h m) qid = [].
+Proof. intros Hop. unfold released. rewrite Hop. reflexivity. Qed.
 
 Section Step.
 Variables (cfg : config) (fx : fixes).
-Hypotheses (F1 : fx_stage fx = true) (F2 : fx_chan_open fx = true) (F3 : fx_closeok_releases fx = true).
+Hypotheses (F1 : fx_stage fx = true) (F2 : fx_chan_open fx = true) (F3 : fx_closeok_releases fx = true)
+           (F4 : fx_delete_checks_first fx = true).
 
-Theorem step_good_partial s l :
-  Inv s -> covered s l -> Good s (fst (step cfg fx s l)) (released cfg fx s l) (placed cfg fx s l).
+Lemma Good_method_opened s c h m cn0 :
+  Inv s -> get_conn s c = Some cn0 -> cstage_eqb (cn_stage cn0) StOpen = true ->
+  Good s (fst (step cfg fx s (LMethod c h m))) (released cfg fx s (LMethod c h m)) nil1.
 Proof.
-  intros [V Hci] Hcov. destruct l; cbn [covered] in Hcov; try contradiction.
+  intros [V Hci] Ec Hst. assert (Hop : conn_opened s c = true) by (rewrite (conn_opened_stage _ _ _ Ec); exact Hst).
+  assert (G0 : Good s (ensure_chan s c h) nil1 nil1) by (apply (Good_ensure s c h cn0); auto; rewrite Hst; reflexivity).
+  assert (I0 : Inv (ensure_chan s c h)) by (split; [exact (proj1 G0)|apply CI_ensure_chan; exact Hci]).
+  assert (Hcc : forall (b : bool), Good s (if b then ensure_chan s c h else fst (conn_close cfg fx (ensure_chan s c h) c))
+                  (fun qid => if b then [] else conn_released (ensure_chan s c h) c qid) nil1).
+  { intros [|]; [exact G0|]. pose proof (Good_conn_close cfg fx (ensure_chan s c h) c F4 I0) as G1.
+    eapply Good_ext; [| |exact (Good_trans _ _ _ _ _ _ _ G0 G1)]; intros q; unfold nil1; rewrite ?app_nil_r; reflexivity. }
+  assert (Hm : match m with MConnClose | MConnCloseOk => False | _ => True end \/ m = MConnClose \/ m = MConnCloseOk)
+    by (destruct m; auto).
+  destruct Hm as [Hm|[->| ->]].
+  - rewrite (method_dispatch cfg fx s c h m cn0 Ec Hst Hm).
+    apply (Good_ext s _ (fun q => if dispatched fx (ensure_chan s c h) c h m then method_released fx (ensure_chan s c h) c h m q else []) nil1);
+      [intros q; rewrite (released_method_any cfg fx s c h m q Hm Hop); reflexivity|intros q; reflexivity|].
+    destruct (dispatched fx (ensure_chan s c h) c h m) eqn:Hd; [|exact G0].
+    apply Good_apply_err.
+    destruct (ensure_chan_some s c h cn0 Ec) as (ch0 & Ech0).
+    assert (Hop0 : conn_opened (ensure_chan s c h) c = true) by (rewrite conn_opened_ensure; exact Hop).
+    pose proof (Good_handle_method_all cfg fx (ensure_chan s c h) c h m ch0 F1 F2 F3 F4 I0 Hop0 Ech0 Hd) as G1.
+    eapply Good_ext; [| |exact (Good_trans _ _ _ _ _ _ _ G0 G1)]; intros q; unfold nil1; rewrite ?app_nil_r; reflexivity.
+  - (* connection.close *)
+    cbn [step]. rewrite Ec, Hst. cbn [negb andb].
+    apply (Good_ext s _ (fun qid => if fx_stage fx && negb (h =? 0) then [] else conn_released (ensure_chan s c h) c qid) nil1);
+      [intros q; unfold released; rewrite Hop; reflexivity|intros q; reflexivity|].
+    specialize (Hcc (fx_stage fx && negb (h =? 0))%bool). destruct (fx_stage fx && negb (h =? 0))%bool; [exact Hcc|].
+    destruct (conn_close cfg fx (ensure_chan s c h) c) as [s1 e1]. exact Hcc.
+  - (* connection.close-ok *)
+    cbn [step]. rewrite Ec, Hst. cbn [negb andb].
+    apply (Good_ext s _ (fun qid => if fx_stage fx && negb (h =? 0) then [] else conn_released (ensure_chan s c h) c qid) nil1);
+      [intros q; unfold released; rewrite Hop; reflexivity|intros q; reflexivity|].
+    specialize (Hcc (fx_stage fx && negb (h =? 0))%bool). destruct (fx_stage fx && negb (h =? 0))%bool; exact Hcc.
+Qed.
+
+Lemma Good_method_unopened s c h m cn0 :
+  Inv s -> get_conn s c = Some cn0 -> cstage_eqb (cn_stage cn0) StOpen = false ->
+  Good s (fst (step cfg fx s (LMethod c h m))) nil1 nil1.
+Proof.
+  intros I Ec Hst. pose proof (proj1 I) as V.
+  assert (Hop : conn_opened s c = false) by (rewrite (conn_opened_stage _ _ _ Ec); exact Hst).
+  destruct (h =? 0) eqn:Eh.
+  - apply N.eqb_eq in Eh. subst h.
+    assert (G0 : Good s (ensure_chan s c 0) nil1 nil1) by (apply (Good_ensure s c 0 cn0); auto; rewrite Hst; reflexivity).
+    assert (I0 : Inv (ensure_chan s c 0)) by (split; [exact (proj1 G0)|apply CI_ensure_chan; exact (proj2 I)]).
+    assert (Hop0 : conn_opened (ensure_chan s c 0) c = false) by (rewrite conn_opened_ensure; exact Hop).
+    destruct (method_unopened cfg fx s c m cn0 F1 Ec Hst) as [E|[E|(st & E)]]; rewrite E.
+    + exact G0.
+    + eapply Good2; [exact G0|]. apply Good_drop_unopened; auto.
+    + destruct (ensure_chan_conn s c 0 cn0 Ec) as (cn' & Ec' & Es').
+      eapply Good2; [exact G0|]. apply (Good_set_stage _ c st cn'); [exact (proj1 G0)|exact Ec'|rewrite Es'; exact Hst].
+  - cbn [step]. rewrite Ec, Hst, Eh. cbn [negb andb]. apply Good_drop_unopened; auto.
+Qed.
+
+Theorem step_good s l : Inv s -> Good s (fst (step cfg fx s l)) (released cfg fx s l) (placed cfg fx s l).
+Proof.
+  intros I. pose proof I as [V Hci]. destruct l.
   - (* LConnect *) cbn [step released placed]. destruct (get_conn s c) eqn:Ec; cbn [fst]; [apply Good_frame; auto|].
     apply Good_new_conn; auto.
   - (* LMethod *)
-    destruct Hcov as [Hc Hm]. destruct (get_conn s c) as [cn0|] eqn:Ec.
+    destruct (get_conn s c) as [cn0|] eqn:Ec.
     2:{ cbn [step]. rewrite Ec. cbn [fst]. apply Good_nil_rel; [|apply Good_frame; auto].
-        intros q. unfold released, conn_opened. rewrite Ec. reflexivity. }
-    destruct Hc as [Hc|Hop]; [discriminate|].
-    pose proof Hop as Hst. rewrite (conn_opened_stage _ _ _ Ec) in Hst.
-    rewrite (method_dispatch cfg fx s c h m cn0 Ec Hst) by (destruct m; try discriminate; exact I).
-    assert (G0 : Good s (ensure_chan s c h) nil1 nil1).
-    { apply Good_ensure_chan; auto. intros cn E Hs. rewrite Ec in E. inversion E; subst. destruct (cn_stage cn); try discriminate. congruence. }
-    apply (Good_ext s _ (fun q => if dispatched fx (ensure_chan s c h) c h m then method_released fx (ensure_chan s c h) c h m q else []) nil1);
-      [intros q; rewrite (released_method cfg fx s c h m q Hm Hop); reflexivity|intros q; reflexivity|].
-    destruct (dispatched fx (ensure_chan s c h) c h m) eqn:Hd; [|exact G0].
-    apply Good_apply_err.
-    destruct (ensure_chan_some s c h cn0 Ec) as (ch0 & Ech0). destruct (ensure_chan_conn s c h cn0 Ec) as (cn' & Ec' & Es').
-    assert (Hop0 : conn_opened (ensure_chan s c h) c = true) by (rewrite (conn_opened_stage _ _ _ Ec'), Es'; exact Hst).
-    pose proof (Good_handle_method cfg fx (ensure_chan s c h) c h m ch0 F1 F2 F3 (conj (proj1 G0) (CI_ensure_chan _ _ _ Hci)) Hop0 Ech0 Hm Hd) as G1.
-    eapply Good_ext; [| |exact (Good_trans _ _ _ _ _ _ _ G0 G1)]; intros q; unfold nil1; rewrite ?app_nil_r; reflexivity.
+        intros q. apply released_unopened. unfold conn_opened. rewrite Ec. reflexivity. }
+    destruct (cstage_eqb (cn_stage cn0) StOpen) eqn:Hst.
+    + apply (Good_method_opened s c h m cn0); auto.
+    + apply Good_nil_rel; [|apply (Good_method_unopened s c h m cn0); auto].
+      intros q. apply released_unopened. rewrite (conn_opened_stage _ _ _ Ec). exact Hst.
+  - (* LHeader *) exact (Good_header cfg fx s c h mid size pers F4 I).
+  - (* LBody *) exact (Good_body cfg fx s c h len F4 I).
   - (* LConsumerTurn *) cbn [step released placed]. apply Good_consumer_turn; auto.
   - (* LQueueLoop *) cbn [step released placed fst]. apply Good_frame; auto. apply view_queue_loop_turn.
+  - (* LAutoDelete *) exact (Good_autodelete cfg fx s F4 V).
   - (* LPersistTick *) cbn [step released placed fst]. apply Good_frame; auto. rewrite view_fold; [reflexivity|]. intros; apply view_store_confirm.
   - (* LRelay *) cbn [step released placed]. destruct (relay s) as [|u rest]; [apply Good_frame; auto|].
     destruct (get_msg _ u) as [m|]; cbn [fst]; [|apply Good_frame; auto].
@@ -1086,86 +1787,270 @@ Proof.
   - (* LConfirmTick *) cbn [step released placed]. destruct (get_chan s c h) as [ch|] eqn:Ech; [|apply Good_frame; auto].
     destruct (negb _); [apply Good_frame; auto|].
     destruct (ch_status ch); cbn [fst]; apply Good_frame; auto; (eapply view_set_chan_same; [eauto|cpr]).
+  - (* LSocketLoss *) cbn [step]. pose proof (Good_conn_close cfg fx s c F4 I) as G.
+    destruct (conn_close cfg fx s c) as [s1 e1]. exact G.
+  - (* LAccept *) cbn [step released placed]. destruct (get_conn s c) eqn:Ec; cbn [fst]; [apply Good_frame; auto|].
+    apply Good_new_conn; auto.
+  - (* LBadMethod *)
+    cbn [step]. destruct (get_conn s c) as [cn0|] eqn:Ec; [|apply Good_frame; auto].
+    set (op := cstage_eqb (cn_stage cn0) StOpen).
+    assert (Hop : op = false -> conn_opened s c = false) by (intros E; rewrite (conn_opened_stage _ _ _ Ec); exact E).
+    destruct (negb op && negb (h =? 0)) eqn:Eg.
+    { apply Good_drop_unopened; auto. apply Hop. destruct op; [discriminate|reflexivity]. }
+    pose proof (Good_ensure s c h cn0 V Ec Eg) as G0.
+    eapply Good2; [exact G0|]. apply Good_err_st; auto.
+    + split; [exact (proj1 G0)|apply CI_ensure_chan; exact Hci].
+    + intros E. rewrite conn_opened_ensure. auto.
+  - (* LHeartbeat *)
+    apply (Good_ext s _ (fun qid => if h =? 0 then [] else conn_released s c qid) nil1); [intros; reflexivity|intros; reflexivity|].
+    cbn [step]. destruct (get_conn s c) eqn:Ec.
+    + destruct (h =? 0); [apply Good_frame; auto|]. apply Good_conn_close; auto.
+    + cbn [fst]. apply Good_nil_rel; [|apply Good_frame; auto]. intros q. destruct (h =? 0); auto. unfold conn_released. rewrite Ec. reflexivity.
+  - (* LRestart *) exact (Good_restart cfg s V).
 Qed.
 End Step.
 
 (* ================================================================== *)
-(* the invariant is inductive over covered labels and holds initially; runs *)
+(* the invariant is inductive and holds initially; the per-step and per-run theorems *)
 Lemma Inv_init cfg : Inv (init cfg).
 Proof.
   split; [|apply CI_init]. unfold VI. cbn. constructor; cbn; try (intros; contradiction); constructor.
 Qed.
 
-Theorem Inv_step_partial cfg fx s l :
-  fx_stage fx = true -> fx_chan_open fx = true -> fx_closeok_releases fx = true ->
-  Inv s -> covered s l -> Inv (fst (step cfg fx s l)).
-Proof. intros F1 F2 F3 I C. split; [exact (proj1 (step_good_partial cfg fx F1 F2 F3 s l I C))|apply CI_step; exact (proj2 I)]. Qed.
+Theorem Inv_step cfg fx s l :
+  fx_stage fx = true -> fx_chan_open fx = true -> fx_closeok_releases fx = true -> fx_delete_checks_first fx = true ->
+  Inv s -> Inv (fst (step cfg fx s l)).
+Proof. intros F1 F2 F3 F4 I. split; [exact (proj1 (step_good cfg fx F1 F2 F3 F4 s l I))|apply CI_step; exact (proj2 I)]. Qed.
 
-Theorem step_conserves_partial cfg fx s l qid :
-  fx_stage fx = true -> fx_chan_open fx = true -> fx_closeok_releases fx = true ->
-  Inv s -> covered s l ->
+Theorem Inv_run cfg fx ls : forall s,
+  fx_stage fx = true -> fx_chan_open fx = true -> fx_closeok_releases fx = true -> fx_delete_checks_first fx = true ->
+  Inv s -> Inv (fst (run cfg fx s ls)).
+Proof.
+  induction ls as [|l t IH]; intros s F1 F2 F3 F4 I; cbn [run]; auto.
+  pose proof (Inv_step cfg fx s l F1 F2 F3 F4 I) as I1. specialize (IH (fst (step cfg fx s l)) F1 F2 F3 F4 I1).
+  destruct (step cfg fx s l) as [s1 e1]. cbn [fst] in *. destruct (run cfg fx s1 t) as [s2 e2]. exact IH.
+Qed.
+
+Theorem step_conserves cfg fx s l qid :
+  fx_stage fx = true -> fx_chan_open fx = true -> fx_closeok_releases fx = true -> fx_delete_checks_first fx = true ->
+  Inv s ->
   Permutation (held (fst (step cfg fx s l)) qid ++ released cfg fx s l qid) (held s qid ++ placed cfg fx s l qid).
-Proof. intros F1 F2 F3 I C. exact (proj2 (step_good_partial cfg fx F1 F2 F3 s l I C) qid). Qed.
+Proof. intros F1 F2 F3 F4 I. exact (proj2 (step_good cfg fx F1 F2 F3 F4 s l I) qid). Qed.
 
 Fixpoint all_released cfg fx s ls qid : list N :=
   match ls with [] => [] | l :: t => released cfg fx s l qid ++ all_released cfg fx (fst (step cfg fx s l)) t qid end.
 Fixpoint all_placed cfg fx s ls qid : list N :=
   match ls with [] => [] | l :: t => placed cfg fx s l qid ++ all_placed cfg fx (fst (step cfg fx s l)) t qid end.
-Fixpoint all_covered cfg fx s ls : Prop :=
-  match ls with [] => True | l :: t => covered s l /\ all_covered cfg fx (fst (step cfg fx s l)) t end.
 
 Theorem run_conserves_from cfg fx ls : forall s qid,
-  fx_stage fx = true -> fx_chan_open fx = true -> fx_closeok_releases fx = true ->
-  Inv s -> all_covered cfg fx s ls ->
+  fx_stage fx = true -> fx_chan_open fx = true -> fx_closeok_releases fx = true -> fx_delete_checks_first fx = true ->
+  Inv s ->
   Permutation (held (fst (run cfg fx s ls)) qid ++ all_released cfg fx s ls qid) (held s qid ++ all_placed cfg fx s ls qid).
 Proof.
-  induction ls as [|l t IH]; intros s qid F1 F2 F3 I C; cbn [run all_released all_placed fst].
+  induction ls as [|l t IH]; intros s qid F1 F2 F3 F4 I; cbn [run all_released all_placed fst].
   - reflexivity.
-  - destruct C as [C1 C2]. pose proof (step_conserves_partial cfg fx s l qid F1 F2 F3 I C1) as H1.
-    pose proof (Inv_step_partial cfg fx s l F1 F2 F3 I C1) as I1.
-    specialize (IH (fst (step cfg fx s l)) qid F1 F2 F3 I1 C2).
+  - pose proof (step_conserves cfg fx s l qid F1 F2 F3 F4 I) as H1.
+    pose proof (Inv_step cfg fx s l F1 F2 F3 F4 I) as I1.
+    specialize (IH (fst (step cfg fx s l)) qid F1 F2 F3 F4 I1).
     destruct (step cfg fx s l) as [s1 e1]. cbn [fst] in *. destruct (run cfg fx s1 t) as [s2 e2]. cbn [fst] in *. perm_lia.
 Qed.
 
-Theorem run_conserves_partial cfg fx ls qid :
-  fx_stage fx = true -> fx_chan_open fx = true -> fx_closeok_releases fx = true ->
-  all_covered cfg fx (init cfg) ls ->
+Theorem run_conserves cfg fx ls qid :
+  fx_stage fx = true -> fx_chan_open fx = true -> fx_closeok_releases fx = true -> fx_delete_checks_first fx = true ->
   Permutation (held (fst (run cfg fx (init cfg) ls)) qid ++ all_released cfg fx (init cfg) ls qid) (all_placed cfg fx (init cfg) ls qid).
-Proof. intros F1 F2 F3 C. exact (run_conserves_from cfg fx ls (init cfg) qid F1 F2 F3 (Inv_init cfg) C). Qed.
+Proof. intros F1 F2 F3 F4. exact (run_conserves_from cfg fx ls (init cfg) qid F1 F2 F3 F4 (Inv_init cfg)). Qed.
 
-Corollary nothing_vanishes_in_between_partial cfg fx s l qid u :
-  fx_stage fx = true -> fx_chan_open fx = true -> fx_closeok_releases fx = true ->
-  Inv s -> covered s l -> released cfg fx s l qid = [] ->
-  In u (held s qid) -> In u (held (fst (step cfg fx s l)) qid).
-Proof.
-  intros F1 F2 F3 I C Hr Hin. pose proof (step_conserves_partial cfg fx s l qid F1 F2 F3 I C) as H. rewrite Hr, app_nil_r in H.
-  eapply Permutation_in; [symmetry; exact H|]. apply in_or_app. auto.
-Qed.
-
-(* labels that release nothing, syntactically *)
-Definition settling_meth (m : meth) : bool :=
-  match m with
-  | MAck _ _ | MNack _ _ false | MReject _ false | MGet _ true | MQPurge _ _ | MQDelete _ _ _ _
-  | MChannelClose | MChannelCloseOk | MNack _ _ true | MReject _ true | MConnClose | MConnCloseOk => true
+(* ================================================================== *)
+(* nothing vanishes in between: the labels that release something from a queue object that is still there afterwards *)
+Definition settling (l : label) : bool :=
+  match l with
+  | LMethod _ _ (MAck _ _) | LMethod _ _ (MNack _ _ false) | LMethod _ _ (MReject _ false) | LMethod _ _ (MGet _ true)
+  | LMethod _ _ (MQPurge _ _) | LConsumerTurn _ _ _ | LRestart => true
   | _ => false
   end.
-Lemma released_nil_method cfg fx s c h m qid : settling_meth m = false -> released cfg fx s (LMethod c h m) qid = [].
+
+Lemma alive_apply_err s0 c h r qid : queue_alive (fst (apply_err s0 c h r)) qid = queue_alive (fst (fst r)) qid.
 Proof.
-  intros H. unfold released. destruct (conn_opened s c); [|reflexivity].
-  destruct m; try discriminate; try (destruct (dispatched _ _ _ _ _); reflexivity).
-  all: try (destruct requeue; discriminate).
-  all: destruct noack; [discriminate|]; destruct (dispatched _ _ _ _ _); reflexivity.
+  destruct r as [[s1 e1] [e|]]; cbn [fst]; auto. unfold apply_err.
+  pose proof (queues_send_error s1 c h e) as Hq. destruct (send_error s1 c h e) as [s2 e2]. cbn [fst] in *.
+  unfold queue_alive. rewrite Hq. reflexivity.
 Qed.
-Lemma queue_alive_ensure s c h qid : queue_alive (ensure_chan s c h) qid = queue_alive s qid.
-Proof. unfold queue_alive. rewrite queues_ensure_chan. reflexivity. Qed.
-Lemma released_nil_requeue cfg fx s c h tag mult qid : queue_alive s qid = true ->
-  released cfg fx s (LMethod c h (MNack tag mult true)) qid = [] /\ released cfg fx s (LMethod c h (MReject tag true)) qid = [] /\
-  released cfg fx s (LMethod c h MChannelClose) qid = [].
+
+Lemma alive_qshape s s' qid : qshape (qv s') = qshape (qv s) -> queue_alive s' qid = queue_alive s qid.
+Proof. intros E. rewrite !queue_alive_qv. apply alive_shape. exact E. Qed.
+
+Lemma qshape_handle_reject cfg s c h tag mult rqf cls mth :
+  qshape (qv (fst (handle_reject cfg s c h tag mult rqf cls mth))) = qshape (qv s).
 Proof.
-  intros Ha. unfold released. destruct (conn_opened s c); [|auto].
-  repeat split; destruct (dispatched _ _ _ _ _); auto; unfold method_released, close_released; rewrite queue_alive_ensure, Ha; cbn; rewrite ?andb_false_r; reflexivity.
+  unfold handle_reject. destruct (get_chan s c h) as [ch|]; auto. destruct mult.
+  - cbn [fst]. rewrite view_fold_dec_qv.
+    destruct (reject_fold_view c h rqf (filter (fun u => (tag =? 0) || (u_tag u <=? tag)) (sort_desc (ch_unacked ch))) s) as (_ & B & _).
+    cbv zeta in B. rewrite B. destruct rqf; auto. apply qshape_rq_fold.
+  - destruct (find _ (ch_unacked ch)) as [u|]; cbn [fst]; auto.
+    rewrite (qv_of_view _ _ (view_dec_qos cfg _ c h u)), qv_chan_rejectmsg, qv_upd_chan. destruct rqf; auto. apply qshape_rq.
 Qed.
-Lemma released_nil_internal cfg fx s l qid :
-  match l with LQueueLoop _ | LPersistTick | LRelay | LConfirmTick _ _ | LConnect _ | LAccept _ | LBadMethod _ _ | LHeader _ _ _ _ _ | LBody _ _ _ => True | _ => False end ->
-  released cfg fx s l qid = [].
-Proof. destruct l; try contradiction; reflexivity. Qed.
+
+Lemma qshape_channel_close cfg s c h : VI s -> qshape (qv (channel_close cfg s c h)) = qshape (qv s).
+Proof.
+  intros V. destruct (get_chan s c h) as [ch|] eqn:Ech.
+  - destruct (channel_close_view cfg s c h ch V Ech) as (_ & B & _). rewrite B. apply qshape_rq_fold.
+  - unfold channel_close. rewrite Ech. reflexivity.
+Qed.
+
+Lemma delete_kills s q qu qid : VI s -> get_queue s q = Some qu -> q_id qu = qid -> alive (adel seqb q (qv s)) qid = false.
+Proof.
+  intros V Eq Hid. apply Bool.not_true_is_false. intros Ha. apply alive_in in Ha. destruct Ha as (n & p & Hin & Hp).
+  pose proof (in_adel seqb q _ _ Hin) as Hin0.
+  assert (n = q) by (apply (qids_unique (qv s) n p q (qproj qu) (vi_qids _ _ _ V) Hin0 (qv_in _ _ _ Eq)); cbn; congruence). subst n.
+  apply (adel_notin seqb seqb_spec q (qv s)). apply (in_map fst) in Hin. exact Hin.
+Qed.
+
+Lemma vhost_delete_qv s q iu ie :
+  qv (fst (fst (vhost_delete_queue false s q iu ie))) =
+  match get_queue s q with Some qu => if delete_refused qu iu ie then qv s else adel seqb q (qv s) | None => qv s end.
+Proof.
+  unfold vhost_delete_queue. destruct (get_queue s q) as [qu|] eqn:Eq; [|reflexivity].
+  fold (delete_refused qu iu ie). destruct (delete_refused qu iu ie); [reflexivity|].
+  pose proof (view_cancel_fold (q_consumers qu) s []) as E1.
+  destruct (fold_left _ (q_consumers qu) (s, [])) as [s1 e1]. cbn [fst] in *. destruct (view_inv _ _ E1) as (A & B & C).
+  unfold qv at 1. destruct (q_durable qu); cbn; rewrite vmap_adel; fold (qv s1); rewrite B; reflexivity.
+Qed.
+
+Lemma conn_close_qv cfg fx s c cn :
+  fx_delete_checks_first fx = true -> Inv s -> get_conn s c = Some cn ->
+  exists v1 : qview, qshape v1 = qshape (qv s) /\ qv (fst (conn_close cfg fx s c)) = filter (fun e => negb (Pown c e)) v1.
+Proof.
+  intros F I Ec. pose proof (proj1 I) as V. unfold conn_close. rewrite Ec.
+  pose proof (conn_stage_cv _ _ _ Ec) as Ecv.
+  assert (Hinc : In (c, nproj cn) (cv s)) by (eapply alookup_in; eauto; apply Neqb_spec).
+  assert (Hkeys : NoDup (map fst (cn_chans cn))).
+  { pose proof (vi_hkeys _ _ _ V c (cn_stage cn) (vmap cproj (cn_chans cn)) Hinc) as H. rewrite keys_vmap in H. exact H. }
+  set (ids := sort_desc_N (map fst (cn_chans cn))).
+  assert (Hperm : Permutation ids (map fst (cn_chans cn))) by apply sort_desc_N_perm.
+  assert (Hnd : NoDup ids) by (eapply Permutation_NoDup; [symmetry; exact Hperm|exact Hkeys]).
+  assert (Hex : forall h, In h ids -> cv_get (cv s) c h <> None).
+  { intros h Hin. apply (Permutation_in _ Hperm) in Hin. apply in_map_iff in Hin. destruct Hin as ([h0 ch0] & <- & Hkh).
+    unfold cv_get. rewrite Ecv. cbn. rewrite alookup_vmap. rewrite (nodup_in_alookup N.eqb Neqb_spec _ _ _ Hkeys Hkh). discriminate. }
+  destruct (close_fold_view cfg c ids s I Hnd Hex) as (I1 & A1 & B1 & C1). cbv zeta in *.
+  set (s1 := fold_left (fun s h => channel_close cfg s c h) ids s) in *. clearbody s1.
+  rewrite F. cbn [negb]. rewrite owned_qv. fold (qv s1).
+  set (owned := map fst (filter (Pown c) (qv s1))).
+  destruct (delete_fold_view owned s1 []) as (A2 & B2 & C2). cbv zeta in *.
+  destruct (fold_left _ owned (s1, [])) as [s2 e2]. cbn [fst] in *.
+  exists (qv s1). split; [rewrite B1; apply qshape_rq_fold|].
+  change (qv (s2 <| conns := adel N.eqb c (conns s2) |>)) with (qv s2).
+  rewrite B2, fold_adel_filter. apply filter_ext_in. intros e He. f_equal. apply names_of_filter; auto.
+  exact (vi_qkeys _ _ _ (proj1 I1)).
+Qed.
+
+Lemma conn_released_nil_alive cfg fx s c qid :
+  fx_delete_checks_first fx = true -> Inv s -> queue_alive (fst (conn_close cfg fx s c)) qid = true -> conn_released s c qid = [].
+Proof.
+  intros F I Ha. pose proof (proj1 I) as V. unfold conn_released. destruct (get_conn s c) as [cn|] eqn:Ec; auto.
+  destruct (conn_close_qv cfg fx s c cn F I Ec) as (v1 & Hsh & Eq).
+  rewrite queue_alive_qv, Eq in Ha. apply alive_in in Ha. destruct Ha as (n & p & Hin & Hid).
+  apply filter_In in Hin. destruct Hin as [Hin Hf].
+  assert (Ha1 : alive (qv s) qid = true) by (rewrite <- (alive_shape _ _ qid Hsh); apply alive_in; eauto).
+  assert (K1 : NoDup (map fst v1)) by (rewrite qshape_keys, Hsh, <- qshape_keys; exact (vi_qkeys _ _ _ V)).
+  assert (K2 : NoDup (qids v1)) by (rewrite qshape_qids, Hsh, <- qshape_qids; exact (vi_qids _ _ _ V)).
+  assert (Eo : existsb (owned_by c qid) (queues s) = false).
+  { rewrite owned_by_qv. fold (qv s).
+    assert (Eown : existsb (fun e => Pown c e && (p_id (snd e) =? qid)) (qv s) = existsb (fun e => Pown c e && (p_id (snd e) =? qid)) v1).
+    { symmetry. exact (existsb_shape (qv s) v1 (fun t => let '(i, ex, o, a) := t in ex && (o =? c) && (i =? qid)) Hsh). }
+    rewrite Eown. apply Bool.not_true_is_false. intros Hx. apply existsb_exists in Hx. destruct Hx as ([n' p'] & Hin' & Hp).
+    apply andb_prop in Hp. destruct Hp as [Hp1 Hp2]. apply N.eqb_eq in Hp2. cbn in Hp1, Hp2.
+    assert (n' = n) by (apply (qids_unique v1 n' p' n p K2 Hin' Hin); congruence). subst n'.
+    pose proof (nodup_in_alookup seqb seqb_spec _ _ _ K1 Hin) as L1. pose proof (nodup_in_alookup seqb seqb_spec _ _ _ K1 Hin') as L2.
+    assert (p' = p) by congruence. subst p'. cbv beta in Hf. apply Bool.negb_true_iff in Hf. unfold Pown in *. cbn in *. congruence. }
+  rewrite queue_alive_qv, Ha1, Eo. reflexivity.
+Qed.
+
+Section Vanish.
+Variables (cfg : config) (fx : fixes).
+Hypotheses (F1 : fx_stage fx = true) (F2 : fx_chan_open fx = true) (F3 : fx_closeok_releases fx = true)
+           (F4 : fx_delete_checks_first fx = true).
+
+Lemma method_released_nil_alive s c h m ch qid :
+  VI s -> get_chan s c h = Some ch -> settling (LMethod c h m) = false ->
+  match m with MConnClose | MConnCloseOk => False | _ => True end ->
+  queue_alive (fst (fst (handle_method cfg fx s c h m))) qid = true -> method_released fx s c h m qid = [].
+Proof.
+  intros V Ech Hs Hm Ha. destruct m; try discriminate; try contradiction; try reflexivity.
+  - (* channel.close *) unfold handle_method in Ha. rewrite Ech in Ha. unfold ok in Ha. cbn [fst] in Ha.
+    rewrite (alive_qshape _ _ qid (qshape_channel_close cfg s c h V)) in Ha. unfold method_released, close_released. rewrite Ha.
+    rewrite andb_false_r. reflexivity.
+  - (* channel.close-ok *) unfold handle_method in Ha. rewrite Ech, F3 in Ha. unfold ok in Ha. cbn [fst] in Ha.
+    rewrite (alive_qshape _ _ qid (qshape_channel_close cfg s c h V)) in Ha. unfold method_released, close_released. rewrite Ha, F3.
+    rewrite andb_false_r. reflexivity.
+  - (* queue.delete *) unfold method_released. unfold handle_method in Ha. rewrite Ech in Ha. unfold ok, refuse in Ha.
+    destruct (queue_found s q) as [qu|] eqn:Ef; auto. pose proof (queue_found_get _ _ _ Ef) as Eg.
+    destruct (locked qu c); cbn [orb]; auto. destruct (delete_refused qu ifunused ifempty) eqn:Er; auto.
+    unfold ready_if. destruct (q_id qu =? qid) eqn:Ei; auto. apply N.eqb_eq in Ei. exfalso.
+    rewrite F4 in Ha. cbn [negb] in Ha. pose proof (vhost_delete_qv s q ifunused ifempty) as Hq. rewrite Eg, Er in Hq.
+    destruct (vhost_delete_queue false s q ifunused ifempty) as [[s1 e1] r1]. cbn [fst] in *.
+    assert (Ha' : queue_alive s1 qid = true) by (destruct r1; exact Ha).
+    rewrite queue_alive_qv, Hq, (delete_kills s q qu qid V Eg Ei) in Ha'. discriminate.
+  - (* basic.get, ack mode *) destruct noack; [discriminate|reflexivity].
+  - (* nack *) destruct requeue; [|discriminate]. unfold handle_method in Ha. rewrite Ech in Ha.
+    pose proof (qshape_handle_reject cfg s c h tag mult true 60 120) as Hq.
+    destruct (handle_reject cfg s c h tag mult true 60 120) as [s1 e1]. cbn [fst] in *.
+    rewrite (alive_qshape _ _ qid Hq) in Ha. unfold method_released. rewrite Ha. reflexivity.
+  - (* reject *) destruct requeue; [|discriminate]. unfold handle_method in Ha. rewrite Ech in Ha.
+    pose proof (qshape_handle_reject cfg s c h tag false true 60 90) as Hq.
+    destruct (handle_reject cfg s c h tag false true 60 90) as [s1 e1]. cbn [fst] in *.
+    rewrite (alive_qshape _ _ qid Hq) in Ha. unfold method_released. rewrite Ha. reflexivity.
+Qed.
+
+Theorem released_nil_alive s l qid :
+  Inv s -> settling l = false -> queue_alive (fst (step cfg fx s l)) qid = true -> released cfg fx s l qid = [].
+Proof.
+  intros I Hs Ha. pose proof I as [V Hci]. destruct l; try discriminate; try reflexivity.
+  - (* LMethod *)
+    destruct (conn_opened s c) eqn:Hop; [|apply released_unopened; exact Hop].
+    unfold conn_opened in Hop. destruct (get_conn s c) as [cn0|] eqn:Ec; [|discriminate].
+    assert (Hop' : conn_opened s c = true) by (unfold conn_opened; rewrite Ec; exact Hop).
+    assert (G0 : Good s (ensure_chan s c h) nil1 nil1) by (apply (Good_ensure s c h cn0); auto; rewrite Hop; reflexivity).
+    assert (I0 : Inv (ensure_chan s c h)) by (split; [exact (proj1 G0)|apply CI_ensure_chan; exact Hci]).
+    assert (Hm : match m with MConnClose | MConnCloseOk => False | _ => True end \/ m = MConnClose \/ m = MConnCloseOk)
+      by (destruct m; auto).
+    destruct Hm as [Hm|[->| ->]].
+    + rewrite (released_method_any cfg fx s c h m qid Hm Hop').
+      rewrite (method_dispatch cfg fx s c h m cn0 Ec Hop Hm) in Ha.
+      destruct (dispatched fx (ensure_chan s c h) c h m); auto.
+      rewrite alive_apply_err in Ha. destruct (ensure_chan_some s c h cn0 Ec) as (ch0 & Ech0).
+      apply (method_released_nil_alive (ensure_chan s c h) c h m ch0 qid (proj1 I0) Ech0 Hs Hm Ha).
+    + unfold released. rewrite Hop'. cbn [step] in Ha. rewrite Ec, Hop in Ha. cbn [negb andb] in Ha.
+      destruct (fx_stage fx && negb (h =? 0))%bool; auto.
+      apply (conn_released_nil_alive cfg fx _ c qid F4 I0). destruct (conn_close cfg fx (ensure_chan s c h) c) as [s1 e1]. exact Ha.
+    + unfold released. rewrite Hop'. cbn [step] in Ha. rewrite Ec, Hop in Ha. cbn [negb andb] in Ha.
+      destruct (fx_stage fx && negb (h =? 0))%bool; auto.
+      apply (conn_released_nil_alive cfg fx _ c qid F4 I0). exact Ha.
+  - (* LAutoDelete *)
+    cbn [released]. cbn [step] in Ha. destruct (autodel s) as [|qn rest]; auto. rewrite F4 in Ha. cbn [negb] in Ha.
+    destruct (get_queue s qn) as [qu|] eqn:Eq; auto. unfold ready_if. destruct (q_id qu =? qid) eqn:Ei; auto. apply N.eqb_eq in Ei. exfalso.
+    pose proof (vhost_delete_qv (s <| autodel := rest |>) qn false false) as Hq.
+    change (get_queue (s <| autodel := rest |>) qn) with (get_queue s qn) in Hq. rewrite Eq in Hq. unfold delete_refused in Hq. cbn [andb orb] in Hq.
+    change (qv (s <| autodel := rest |>)) with (qv s) in Hq.
+    destruct (vhost_delete_queue false (s <| autodel := rest |>) qn false false) as [[s1 e1] r1]. cbn [fst] in *.
+    rewrite queue_alive_qv, Hq, (delete_kills s qn qu qid V Eq Ei) in Ha. discriminate.
+  - (* LSocketLoss *) cbn [released]. apply (conn_released_nil_alive cfg fx s c qid F4 I). cbn [step] in Ha.
+    destruct (conn_close cfg fx s c) as [s1 e1]. exact Ha.
+  - (* LHeartbeat *) cbn [released]. destruct (h =? 0) eqn:Eh; auto. apply (conn_released_nil_alive cfg fx s c qid F4 I).
+    cbn [step] in Ha. destruct (get_conn s c) eqn:Ec; [rewrite Eh in Ha; exact Ha|].
+    unfold conn_close. rewrite Ec. exact Ha.
+Qed.
+
+Corollary nothing_vanishes_in_between s l qid u :
+  Inv s -> settling l = false -> In u (held s qid) -> queue_alive (fst (step cfg fx s l)) qid = true ->
+  In u (held (fst (step cfg fx s l)) qid).
+Proof.
+  intros I Hs Hin Ha. pose proof (step_conserves cfg fx s l qid F1 F2 F3 F4 I) as H.
+  rewrite (released_nil_alive s l qid I Hs Ha), app_nil_r in H.
+  eapply Permutation_in; [symmetry; exact H|]. apply in_or_app. auto.
+Qed.
+End Vanish.
+
+(* a consumer turn of an ack-mode consumer releases nothing either *)
+Lemma turn_released_ack s c h tag ch cm qid :
+  get_chan s c h = Some ch -> find_consumer ch tag = Some cm -> c_noack cm = false -> forall cfg fx, released cfg fx s (LConsumerTurn c h tag) qid = [].
+Proof. intros E1 E2 E3 cfg fx. cbn [released]. unfold turn_released. rewrite E1, E2, E3. rewrite andb_false_r. reflexivity. Qed.
